@@ -1,7 +1,1490 @@
-(** C09 — lemmas. *)
+(** C09 — lemmas (the property theorems are restated in C09/Props.v). *)
 From Coq Require Import List Arith NArith Bool Lia.
 From SV Require Import C09.Base C09.Gen C09.Model.
 Import ListNotations.
 
-Lemma flag_forwarded : forall b, on_finish_flag b = b.
+(** ** What the generated tables must say (each fails if the source changed) *)
+Lemma gen_flag : forall b, on_finish_flag b = b.
 Proof. intros b. reflexivity. Qed.
+Lemma gen_flags : flag_when_finished = false /\ flag_when_expired = true /\ finished_checked_first = true.
+Proof. repeat split; reflexivity. Qed.
+Lemma gen_has_finished : forall ok e x, has_finished ok e x = Nat.leb x (ok + e).
+Proof. reflexivity. Qed.
+Lemma gen_expired : forall d n, expired d n = N.ltb d n.
+Proof. reflexivity. Qed.
+Lemma gen_arms : on_message_arm SOk = IncOk /\ on_message_arm SFailure = IncErr /\
+                 on_message_arm SProcessing = Notice /\ on_message_arm SInvalid = Nothing.
+Proof. repeat split; reflexivity. Qed.
+Lemma gen_retire : forall st, retire_on_terminal st =
+                              match on_message_arm st with IncOk | IncErr => true | _ => false end.
+Proof. intros []; reflexivity. Qed.
+Lemma gen_purge : purge_on_finish = true. Proof. reflexivity. Qed.
+Lemma gen_scatter : scatter_skips_stopped = true. Proof. reflexivity. Qed.
+Lemma gen_worker_fails : forall e b, worker_fails e b = (Nat.ltb 0 e || b).
+Proof. reflexivity. Qed.
+Lemma gen_load_ok : forall e, load_ok e = Nat.eqb e 0. Proof. reflexivity. Qed.
+Lemma gen_stop : stop_ok_after_failure = false. Proof. reflexivity. Qed.
+Lemma gen_tmo : tmo_worker = TDefault /\ tmo_query = TDefault /\ tmo_hardstop = TDefault /\
+                tmo_softstop = TNone /\ tmo_load = TNone.
+Proof. repeat split; reflexivity. Qed.
+Lemma gen_unserved : unserved_answered = true. Proof. reflexivity. Qed.
+
+(** ** Vocabulary of the statements *)
+Definition tid_of (r : rid) : nat := snd (fst r).
+
+Definition finals_of (rq : nat) (os : list out) : list status :=
+  flat_map (fun o => match o with
+                     | OFinal _ rq' st => if Nat.eqb rq' rq then [st] else []
+                     | _ => []
+                     end) os.
+
+Definition count_rq (rq : nat) (ts : list task) : nat :=
+  length (filter (fun t => Nat.eqb (t_rq t) rq) ts).
+
+Definition open_count (f : list (rid * nat)) (tid : nat) : nat :=
+  length (filter (fun e => Nat.eqb (snd e) tid) f).
+
+Definition acked (es : list event) (r : rid) : Prop :=
+  exists w, In (EResp w (Some r) SOk) es.
+
+Lemma finals_of_app : forall rq a b, finals_of rq (a ++ b) = finals_of rq a ++ finals_of rq b.
+Proof. intros. unfold finals_of. apply flat_map_app. Qed.
+
+Lemma rid_eqb_eq : forall a b, rid_eqb a b = true <-> a = b.
+Proof.
+  intros [[w1 t1] i1] [[w2 t2] i2]. unfold rid_eqb.
+  rewrite !andb_true_iff, !Nat.eqb_eq. split.
+  - intros [[-> ->] ->]. reflexivity.
+  - intros H. inversion H. auto.
+Qed.
+
+Lemma rid_eqb_refl : forall a, rid_eqb a a = true.
+Proof. intros. apply rid_eqb_eq. reflexivity. Qed.
+
+Lemma rid_eqb_neq : forall a b, rid_eqb a b = false <-> a <> b.
+Proof.
+  intros a b. split.
+  - intros H E. apply rid_eqb_eq in E. congruence.
+  - intros H. destruct (rid_eqb a b) eqn:E; auto. apply rid_eqb_eq in E. contradiction.
+Qed.
+
+Lemma verdict_one : forall k e b, length (verdict k e b) = 1.
+Proof.
+  intros k e b. destruct k as [| |hard|]; cbn [verdict].
+  - destruct (worker_fails e b); reflexivity.
+  - reflexivity.
+  - destruct (stop_fails b hard); [rewrite gen_stop|]; reflexivity.
+  - destruct (load_ok e); reflexivity.
+Qed.
+
+Lemma run_app : forall es1 es2 h,
+    run h (es1 ++ es2) =
+    let '(h1, o1) := run h es1 in let '(h2, o2) := run h1 es2 in (h2, o1 ++ o2).
+Proof.
+  induction es1 as [|e es1 IH]; intros es2 h; cbn [run app].
+  - destruct (run h es2). reflexivity.
+  - destruct (step h e) as [h1 o1]. rewrite IH.
+    destruct (run h1 es1) as [h2 o2]. destruct (run h2 es2) as [h3 o3].
+    rewrite app_assoc. reflexivity.
+Qed.
+
+Lemma run_snoc : forall es e h,
+    run h (es ++ [e]) =
+    let '(h1, o1) := run h es in let '(h2, o2) := step h1 e in (h2, o1 ++ o2).
+Proof.
+  intros. rewrite run_app. destruct (run h es) as [h1 o1]. cbn [run].
+  destruct (step h1 e) as [h2 o2]. rewrite app_nil_r. reflexivity.
+Qed.
+
+(** ** one_verdict: a potential that never increases *)
+
+Definition fresh_ind (rq : nat) (h : hub) : nat := if Nat.ltb rq (next_rq h) then 0 else 1.
+
+Lemma finals_finish_outs : forall rq t raw,
+    length (finals_of rq (finish_outs t raw)) = if Nat.eqb (t_rq t) rq then 1 else 0.
+Proof.
+  intros rq t raw. unfold finish_outs.
+  pose proof (verdict_one (t_kind t) (t_err t) (on_finish_flag raw)) as Hv.
+  destruct (verdict (t_kind t) (t_err t) (on_finish_flag raw)) as [|s [|s' l]]; cbn in Hv; try lia.
+  rewrite finals_of_app. cbn. destruct (Nat.eqb (t_rq t) rq); reflexivity.
+Qed.
+
+Lemma sweep_budget_gen : forall (f : task -> option bool) rq ts,
+    length (finals_of rq (flat_map (fun t => match f t with Some raw => finish_outs t raw | None => [] end) ts)) +
+    count_rq rq (filter (fun t => match f t with Some _ => false | None => true end) ts) =
+    count_rq rq ts.
+Proof.
+  intros f rq ts. unfold count_rq. induction ts as [|t ts IH]; [reflexivity|].
+  cbn [flat_map filter]. rewrite finals_of_app, app_length.
+  destruct (f t) as [raw|] eqn:Ef.
+  - rewrite finals_finish_outs. destruct (Nat.eqb (t_rq t) rq); cbn [length]; lia.
+  - cbn [filter]. destruct (Nat.eqb (t_rq t) rq); cbn [length finals_of flat_map]; lia.
+Qed.
+
+Lemma sweep_tasks : forall h,
+    tasks (fst (sweep h)) = filter (fun t => match finishes h t with Some _ => false | None => true end) (tasks h).
+Proof. reflexivity. Qed.
+
+Lemma sweep_outs : forall h,
+    snd (sweep h) = flat_map (fun t => match finishes h t with Some raw => finish_outs t raw | None => [] end) (tasks h).
+Proof. reflexivity. Qed.
+
+Lemma sweep_next_rq : forall h, next_rq (fst (sweep h)) = next_rq h.
+Proof. reflexivity. Qed.
+
+Lemma sweep_budget : forall h rq,
+    length (finals_of rq (snd (sweep h))) + count_rq rq (tasks (fst (sweep h))) = count_rq rq (tasks h).
+Proof. intros. rewrite sweep_outs, sweep_tasks. apply sweep_budget_gen. Qed.
+
+Lemma count_rq_map : forall (g : task -> task) rq ts,
+    (forall t, t_rq (g t) = t_rq t) -> count_rq rq (map g ts) = count_rq rq ts.
+Proof.
+  intros g rq ts Hg. unfold count_rq. induction ts as [|t ts IH]; [reflexivity|].
+  cbn [map filter]. rewrite Hg. destruct (Nat.eqb (t_rq t) rq); cbn [length]; lia.
+Qed.
+
+Lemma count_rq_app : forall rq a b, count_rq rq (a ++ b) = count_rq rq a + count_rq rq b.
+Proof. intros. unfold count_rq. rewrite filter_app, app_length. reflexivity. Qed.
+
+Lemma bump_exp_rq : forall n tid t, t_rq (bump_exp n tid t) = t_rq t.
+Proof. intros. unfold bump_exp. destruct (Nat.eqb (t_id t) tid); reflexivity. Qed.
+
+Definition no_finals (os : list out) : Prop := forall c rq st, ~ In (OFinal c rq st) os.
+
+Lemma no_finals_finals_of : forall os rq, no_finals os -> finals_of rq os = [].
+Proof.
+  induction os as [|o os IH]; intros rq H; [reflexivity|].
+  cbn [finals_of flat_map]. fold (finals_of rq os).
+  rewrite IH by (intros c r s Hin; apply (H c r s); right; exact Hin).
+  destruct o as [c r|c r s|w r q|t b]; try reflexivity.
+  exfalso. apply (H c r s). left. reflexivity.
+Qed.
+
+Lemma no_finals_app : forall a b, no_finals a -> no_finals b -> no_finals (a ++ b).
+Proof. intros a b Ha Hb c rq st Hin. apply in_app_or in Hin. destruct Hin; [eapply Ha|eapply Hb]; eauto. Qed.
+
+Lemma no_finals_sends : forall (ws : list nat) f, no_finals (map (fun w => OSend w (f w) 0) ws) -> True.
+Proof. trivial. Qed.
+
+Lemma scatter_on_facts : forall h rq tid idx h' os,
+    scatter_on h rq tid idx = (h', os) ->
+    no_finals os /\ next_rq h' = next_rq h /\ (forall q, count_rq q (tasks h') = count_rq q (tasks h)).
+Proof.
+  intros h rq tid idx h' os H. unfold scatter_on in H. inversion H; subst; clear H.
+  split; [|split].
+  - intros c q st Hin. apply in_map_iff in Hin. destruct Hin as [w [Hw _]]. discriminate.
+  - reflexivity.
+  - intros q. cbn [tasks set_tasks set_in_flight]. apply count_rq_map. intros. apply bump_exp_rq.
+Qed.
+
+Lemma scatter_many_facts : forall idxs h rq tid h' os,
+    scatter_many h rq tid idxs = (h', os) ->
+    no_finals os /\ next_rq h' = next_rq h /\ (forall q, count_rq q (tasks h') = count_rq q (tasks h)).
+Proof.
+  induction idxs as [|i idxs IH]; intros h rq tid h' os H; cbn [scatter_many] in H.
+  - inversion H; subst. split; [intros c q st []|split; auto].
+  - destruct (scatter_on h rq tid i) as [h1 o1] eqn:E1.
+    destruct (scatter_many h1 rq tid idxs) as [h2 o2] eqn:E2.
+    inversion H; subst; clear H.
+    apply scatter_on_facts in E1. apply IH in E2.
+    destruct E1 as [A1 [B1 C1]]. destruct E2 as [A2 [B2 C2]].
+    split; [apply no_finals_app; assumption|split].
+    + congruence.
+    + intros q. rewrite C2, C1. reflexivity.
+Qed.
+
+Lemma new_task_facts : forall h c k t h' tid,
+    new_task h c k t = (h', tid) ->
+    next_rq h' = next_rq h /\
+    (forall q, count_rq q (tasks h') = count_rq q (tasks h) + if Nat.eqb (next_rq h) q then 1 else 0).
+Proof.
+  intros h c k t h' tid H. unfold new_task in H. inversion H; subst; clear H. split; [reflexivity|].
+  intros q. cbn [tasks]. rewrite count_rq_app. unfold count_rq at 2. cbn [filter t_rq].
+  destruct (Nat.eqb (next_rq h) q); reflexivity.
+Qed.
+
+Lemma client_request_budget : forall h c v h' os rq,
+    client_request h c v = (h', os) ->
+    length (finals_of rq os) + count_rq rq (tasks h') + fresh_ind rq h' <= count_rq rq (tasks h) + fresh_ind rq h.
+Proof.
+  intros h c v h' os rq H. unfold client_request in H.
+  assert (Hind : forall h0, next_rq h0 = next_rq h -> forall n, count_rq rq (tasks h0) = count_rq rq (tasks h) + n ->
+                 forall fin, fin + n = (if Nat.eqb (next_rq h) rq then 1 else 0) ->
+                 fin + count_rq rq (tasks (bump_rq h0)) + fresh_ind rq (bump_rq h0) <= count_rq rq (tasks h) + fresh_ind rq h).
+  { intros h0 Hn n Hc fin Hf. unfold fresh_ind, bump_rq. cbn [tasks next_rq]. rewrite Hn, Hc.
+    destruct (Nat.eqb (next_rq h) rq) eqn:E.
+    - apply Nat.eqb_eq in E. subst rq.
+      destruct (Nat.ltb_spec (next_rq h) (S (next_rq h))); destruct (Nat.ltb_spec (next_rq h) (next_rq h)); lia.
+    - apply Nat.eqb_neq in E.
+      destruct (Nat.ltb_spec rq (S (next_rq h))); destruct (Nat.ltb_spec rq (next_rq h)); lia. }
+  assert (Hsc : forall k t, let '(h1, tid) := new_task h c k t in
+                 let '(h2, o) := scatter_on h1 (next_rq h) tid 0 in
+                 (bump_rq h2, ONotice c (next_rq h) :: o) = (h', os) ->
+                 length (finals_of rq os) + count_rq rq (tasks h') + fresh_ind rq h' <= count_rq rq (tasks h) + fresh_ind rq h).
+  { intros k t. destruct (new_task h c k t) as [h1 tid] eqn:E1.
+    destruct (scatter_on h1 (next_rq h) tid 0) as [h2 o] eqn:E2. intros Heq. inversion Heq; subst; clear Heq.
+    apply new_task_facts in E1. apply scatter_on_facts in E2. destruct E1 as [N1 C1]. destruct E2 as [F2 [N2 C2]].
+    cbn [finals_of flat_map]. fold (finals_of rq o). rewrite (no_finals_finals_of _ _ F2). cbn [length app].
+    eapply (Hind h2 ltac:(congruence) _ ltac:(rewrite C2, C1; reflexivity) 0). reflexivity. }
+  destruct v as [| | | | | | |n].
+  - (* VWorker *) specialize (Hsc KWorker tmo_worker).
+    destruct (new_task h c KWorker tmo_worker) as [h1 tid]. destruct (scatter_on h1 (next_rq h) tid 0). apply Hsc, H.
+  - (* VRejected *) inversion H; subst; clear H. cbn [finals_of flat_map app].
+    destruct (Nat.eqb (next_rq h) rq) eqn:E; cbn [length];
+      apply (Hind h eq_refl 0 ltac:(lia)); try rewrite E; reflexivity.
+  - (* VQuery *) specialize (Hsc KQuery tmo_query).
+    destruct (new_task h c KQuery tmo_query) as [h1 tid]. destruct (scatter_on h1 (next_rq h) tid 0). apply Hsc, H.
+  - (* VLocal *) inversion H; subst; clear H. cbn [finals_of flat_map app].
+    destruct (Nat.eqb (next_rq h) rq) eqn:E; cbn [length];
+      apply (Hind h eq_refl 0 ltac:(lia)); try rewrite E; reflexivity.
+  - (* VUnserved *) rewrite gen_unserved in H. inversion H; subst; clear H. cbn [finals_of flat_map app].
+    destruct (Nat.eqb (next_rq h) rq) eqn:E; cbn [length];
+      apply (Hind h eq_refl 0 ltac:(lia)); try rewrite E; reflexivity.
+  - (* VHardStop *) specialize (Hsc (KStop true) tmo_hardstop).
+    destruct (new_task h c (KStop true) tmo_hardstop) as [h1 tid]. destruct (scatter_on h1 (next_rq h) tid 0). apply Hsc, H.
+  - (* VSoftStop *) specialize (Hsc (KStop false) tmo_softstop).
+    destruct (new_task h c (KStop false) tmo_softstop) as [h1 tid]. destruct (scatter_on h1 (next_rq h) tid 0). apply Hsc, H.
+  - (* VLoad *)
+    destruct (new_task h c KLoad tmo_load) as [h1 tid] eqn:E1.
+    destruct (scatter_many h1 (next_rq h) tid (seq 1 n)) as [h2 o] eqn:E2. inversion H; subst; clear H.
+    apply new_task_facts in E1. apply scatter_many_facts in E2. destruct E1 as [N1 C1]. destruct E2 as [F2 [N2 C2]].
+    assert (Hf : finals_of rq (ONotice c (next_rq h) :: o ++ [ONotice c (next_rq h)]) = []).
+    { apply no_finals_finals_of. intros c' q st [Hin|Hin]; [discriminate|].
+      apply in_app_or in Hin. destruct Hin as [Hin|[Hin|[]]]; [eapply F2; eauto|discriminate]. }
+    rewrite Hf. cbn [length].
+    eapply (Hind h2 ltac:(congruence) _ ltac:(rewrite C2, C1; reflexivity) 0). reflexivity.
+Qed.
+
+Lemma apply_arm_rq : forall a t, t_rq (apply_arm a t) = t_rq t.
+Proof. intros [] t; reflexivity. Qed.
+
+Lemma worker_response_facts : forall h w r st h' os,
+    worker_response h w r st = (h', os) ->
+    no_finals os /\ next_rq h' = next_rq h /\ (forall q, count_rq q (tasks h') = count_rq q (tasks h)).
+Proof.
+  intros h w r st h' os H. unfold worker_response in H.
+  assert (Hid : no_finals ([] : list out) /\ next_rq h = next_rq h /\
+                (forall q, count_rq q (tasks h) = count_rq q (tasks h))).
+  { split; [intros c q s []|split; auto]. }
+  destruct r as [r|]; [|inversion H; subst; exact Hid].
+  destruct (lookup_rid r (in_flight h)) as [tid|]; [|inversion H; subst; exact Hid].
+  destruct (find_task tid (tasks h)) as [t|]; [|inversion H; subst; exact Hid].
+  inversion H; subst; clear H. split; [|split].
+  - intros c q s Hin. destruct (on_message_arm st); cbn in Hin; try contradiction.
+    destruct Hin as [Hin|[]]. discriminate.
+  - reflexivity.
+  - intros q. cbn [tasks set_tasks set_in_flight]. apply count_rq_map.
+    intros t'. destruct (Nat.eqb (t_id t') tid); [apply apply_arm_rq|reflexivity].
+Qed.
+
+Lemma apply_event_budget : forall h e h' os rq,
+    apply_event h e = (h', os) ->
+    length (finals_of rq os) + count_rq rq (tasks h') + fresh_ind rq h' <= count_rq rq (tasks h) + fresh_ind rq h.
+Proof.
+  intros h e h' os rq H. destruct e as [c v|w r st|w|c|dt]; cbn [apply_event] in H.
+  - eapply client_request_budget; eauto.
+  - apply worker_response_facts in H. destruct H as [F [N C]].
+    rewrite (no_finals_finals_of _ _ F), C. unfold fresh_ind. rewrite N. cbn [length]. lia.
+  - inversion H; subst; clear H. unfold fresh_ind. cbn [finals_of flat_map length tasks next_rq]. lia.
+  - inversion H; subst; clear H. unfold fresh_ind. cbn [finals_of flat_map length tasks next_rq]. lia.
+  - inversion H; subst; clear H. unfold fresh_ind. cbn [finals_of flat_map length tasks next_rq]. lia.
+Qed.
+
+Lemma finals_of_filter_le : forall p rq os, length (finals_of rq (filter p os)) <= length (finals_of rq os).
+Proof.
+  intros p rq os. induction os as [|o os IH]; [reflexivity|].
+  cbn [filter]. destruct (p o).
+  - change (o :: filter p os) with ([o] ++ filter p os). change (o :: os) with ([o] ++ os).
+    rewrite !finals_of_app, !app_length. lia.
+  - change (o :: os) with ([o] ++ os). rewrite finals_of_app, app_length. lia.
+Qed.
+
+Lemma step_budget : forall h e h' os rq,
+    step h e = (h', os) ->
+    length (finals_of rq os) + count_rq rq (tasks h') + fresh_ind rq h' <= count_rq rq (tasks h) + fresh_ind rq h.
+Proof.
+  intros h e h' os rq H. unfold step in H.
+  destruct (stopping h).
+  - inversion H; subst. cbn. lia.
+  - destruct (apply_event h e) as [h1 o1] eqn:E1.
+    pose proof (sweep_budget h1 rq) as Hs. pose proof (sweep_next_rq h1) as Hn.
+    destruct (sweep h1) as [h2 o2] eqn:E2. cbn [fst snd] in Hs, Hn.
+    inversion H; subst; clear H.
+    pose proof (apply_event_budget _ _ _ _ rq E1) as Ha.
+    pose proof (finals_of_filter_le (deliverable h') rq (o1 ++ o2)) as Hf.
+    rewrite finals_of_app, app_length in Hf.
+    unfold fresh_ind in *. rewrite Hn. lia.
+Qed.
+
+Lemma run_budget : forall es h h' os rq,
+    run h es = (h', os) ->
+    length (finals_of rq os) + count_rq rq (tasks h') + fresh_ind rq h' <= count_rq rq (tasks h) + fresh_ind rq h.
+Proof.
+  induction es as [|e es IH]; intros h h' os rq H; cbn [run] in H.
+  - inversion H; subst. cbn. lia.
+  - destruct (step h e) as [h1 o1] eqn:E1. destruct (run h1 es) as [h2 o2] eqn:E2.
+    inversion H; subst; clear H.
+    pose proof (step_budget _ _ _ _ rq E1). pose proof (IH _ _ _ rq E2).
+    rewrite finals_of_app, app_length. lia.
+Qed.
+
+(** one_verdict, from any reachable state in which request [rq] has at most
+    one task and from the initial state in particular *)
+Lemma one_verdict_from : forall h es rq,
+    count_rq rq (tasks h) + fresh_ind rq h <= 1 ->
+    length (finals_of rq (snd (run h es))) <= 1.
+Proof.
+  intros h es rq Hh. destruct (run h es) as [h' os] eqn:E.
+  pose proof (run_budget _ _ _ _ rq E). cbn [snd]. lia.
+Qed.
+
+Lemma one_verdict_init : forall nw tm es rq,
+    length (finals_of rq (snd (run (init nw tm) es))) <= 1.
+Proof.
+  intros. apply one_verdict_from. cbn. unfold fresh_ind. cbn. lia.
+Qed.
+
+(** ** Well-formedness of reachable hubs *)
+
+Record WF (h : hub) : Prop := mkWF {
+  wf_tid : forall t, In t (tasks h) -> t_id t < next_task h;
+  wf_nodup_id : NoDup (map t_id (tasks h));
+  wf_keys : NoDup (map fst (in_flight h));
+  wf_live : forall r tid, In (r, tid) (in_flight h) ->
+                          tid_of r = tid /\ exists t, In t (tasks h) /\ t_id t = tid;
+  wf_workers : NoDup (map fst (workers h));
+  wf_load : forall t, In t (tasks h) -> t_kind t = KLoad -> t_deadline t = None;
+  wf_acc : forall t, In t (tasks h) -> t_ok t + t_err t + open_count (in_flight h) (t_id t) = t_exp t;
+}.
+
+Lemma open_count_app : forall f g tid, open_count (f ++ g) tid = open_count f tid + open_count g tid.
+Proof. intros. unfold open_count. rewrite filter_app, app_length. reflexivity. Qed.
+
+Lemma open_count_sends : forall (ws : list nat) tid idx tid',
+    open_count (map (fun w => ((w, tid, idx), tid)) ws) tid' = if Nat.eqb tid tid' then length ws else 0.
+Proof.
+  intros ws tid idx tid'. unfold open_count. induction ws as [|w ws IH]; cbn [map filter snd].
+  - destruct (Nat.eqb tid tid'); reflexivity.
+  - destruct (Nat.eqb tid tid') eqn:E; cbn [length]; rewrite IH; reflexivity.
+Qed.
+
+Lemma open_count_filter_keep : forall (p : rid * nat -> bool) f tid,
+    (forall e, In e f -> snd e = tid -> p e = true) ->
+    open_count (filter p f) tid = open_count f tid.
+Proof.
+  intros p f tid H. unfold open_count. induction f as [|e f IH]; [reflexivity|].
+  cbn [filter]. destruct (Nat.eqb (snd e) tid) eqn:E.
+  - apply Nat.eqb_eq in E. rewrite (H e (or_introl eq_refl) E). cbn [filter].
+    rewrite <- E, Nat.eqb_refl. cbn [length]. f_equal. rewrite E. apply IH.
+    intros e' Hin. apply H. right. exact Hin.
+  - destruct (p e); cbn [filter]; [rewrite E|]; apply IH; intros e' Hin; apply H; right; exact Hin.
+Qed.
+
+Lemma open_count_remove : forall f r tid tid',
+    NoDup (map fst f) -> In (r, tid) f ->
+    open_count (filter (fun e => negb (rid_eqb (fst e) r)) f) tid' + (if Nat.eqb tid tid' then 1 else 0)
+    = open_count f tid'.
+Proof.
+  intros f r tid tid' Hnd Hin. unfold open_count. induction f as [|e f IH]; [destruct Hin|].
+  cbn [map] in Hnd. inversion Hnd as [|x l Hnotin Hnd']; subst.
+  destruct Hin as [He|Hin].
+  - subst e. cbn [filter fst snd]. rewrite rid_eqb_refl. cbn [negb].
+    assert (Hf : filter (fun e => negb (rid_eqb (fst e) r)) f = f).
+    { clear IH Hnd Hnd'. induction f as [|e f IHf]; [reflexivity|]. cbn [filter].
+      destruct (rid_eqb (fst e) r) eqn:E.
+      - apply rid_eqb_eq in E. exfalso. apply Hnotin. cbn [map]. left. exact E.
+      - cbn [negb]. f_equal. apply IHf. intros H. apply Hnotin. cbn [map]. right. exact H. }
+    rewrite Hf. destruct (Nat.eqb tid tid'); cbn [length]; lia.
+  - cbn [filter]. destruct (rid_eqb (fst e) r) eqn:E.
+    + apply rid_eqb_eq in E. exfalso. apply Hnotin. rewrite E. apply (in_map fst f (r, tid)). exact Hin.
+    + cbn [negb filter]. specialize (IH Hnd' Hin).
+      destruct (Nat.eqb (snd e) tid'); cbn [length]; lia.
+Qed.
+
+Lemma lookup_rid_in : forall r f tid, lookup_rid r f = Some tid -> In (r, tid) f.
+Proof.
+  induction f as [|[r' t'] f IH]; intros tid H; cbn [lookup_rid] in H; [discriminate|].
+  destruct (rid_eqb r r') eqn:E.
+  - apply rid_eqb_eq in E. inversion H; subst. left. reflexivity.
+  - right. apply IH. exact H.
+Qed.
+
+Lemma lookup_rid_none : forall r f, lookup_rid r f = None -> forall tid, ~ In (r, tid) f.
+Proof.
+  induction f as [|[r' t'] f IH]; intros H tid Hin; cbn [lookup_rid] in H; [destruct Hin|].
+  destruct (rid_eqb r r') eqn:E; [discriminate|].
+  destruct Hin as [Heq|Hin]; [|eapply IH; eauto].
+  inversion Heq; subst. rewrite rid_eqb_refl in E. discriminate.
+Qed.
+
+Lemma find_task_in : forall tid ts t, find_task tid ts = Some t -> In t ts /\ t_id t = tid.
+Proof.
+  induction ts as [|t' ts IH]; intros t H; cbn [find_task] in H; [discriminate|].
+  destruct (Nat.eqb (t_id t') tid) eqn:E.
+  - inversion H; subst. apply Nat.eqb_eq in E. split; [left; reflexivity|exact E].
+  - destruct (IH _ H). split; [right|]; assumption.
+Qed.
+
+Lemma find_task_none : forall tid ts, find_task tid ts = None -> forall t, In t ts -> t_id t <> tid.
+Proof.
+  induction ts as [|t' ts IH]; intros H t Hin; cbn [find_task] in H; [destruct Hin|].
+  destruct (Nat.eqb (t_id t') tid) eqn:E; [discriminate|].
+  destruct Hin as [->|Hin]; [apply Nat.eqb_neq; exact E|apply IH; assumption].
+Qed.
+
+Definition RqB (h : hub) (n : nat) : Prop := forall t, In t (tasks h) -> t_rq t < n.
+
+Lemma NoDup_snoc : forall (A : Type) (l : list A) x, NoDup l -> ~ In x l -> NoDup (l ++ [x]).
+Proof.
+  induction l as [|y l IH]; intros x Hnd Hx; cbn [app].
+  - constructor; [intros []|constructor].
+  - inversion Hnd; subst. constructor.
+    + intros Hin. apply in_app_or in Hin. destruct Hin as [Hin|[->|[]]]; [contradiction|].
+      apply Hx. left. reflexivity.
+    + apply IH; [assumption|]. intros Hin. apply Hx. right. exact Hin.
+Qed.
+
+Lemma wf_init : forall nw tm, WF (init nw tm).
+Proof.
+  intros nw tm. constructor; cbn [init tasks in_flight workers next_task next_rq].
+  - intros t [].
+  - constructor.
+  - constructor.
+  - intros r0 tid [].
+  - rewrite map_map. cbn [fst]. rewrite map_id. apply seq_NoDup.
+  - intros t [].
+  - intros t [].
+Qed.
+
+(** *** new_task *)
+Lemma new_task_wf : forall h c k t h' tid,
+    WF h -> new_task h c k t = (h', tid) -> (k = KLoad -> t = TNone) ->
+    WF h' /\ tid = next_task h /\ next_task h' = S tid /\ in_flight h' = in_flight h /\
+    workers h' = workers h /\ next_rq h' = next_rq h /\ now h' = now h /\ gone h' = gone h /\
+    stopping h' = stopping h /\ timeout h' = timeout h /\
+    tasks h' = tasks h ++ [mkTask tid (next_rq h) c k 0 0 0 (deadline_of h t)].
+Proof.
+  intros h c k t h' tid W H Hk. unfold new_task in H. inversion H; subst; clear H.
+  split; [|repeat split; reflexivity].
+  constructor; cbn [tasks in_flight workers next_task next_rq].
+  - intros tk Hin. apply in_app_or in Hin. destruct Hin as [Hin|[<-|[]]].
+    + pose proof (wf_tid h W tk Hin). lia.
+    + cbn. lia.
+  - rewrite map_app. cbn [map t_id]. apply NoDup_snoc; [apply (wf_nodup_id h W)|].
+    intros Hin. apply in_map_iff in Hin. destruct Hin as [tk [E Hin]].
+    pose proof (wf_tid h W tk Hin). lia.
+  - apply (wf_keys h W).
+  - intros r0 tid0 Hin. destruct (wf_live h W r0 tid0 Hin) as [A [tk [B C]]].
+    split; [exact A|]. exists tk. split; [apply in_or_app; left; exact B|exact C].
+  - apply (wf_workers h W).
+  - intros tk Hin Hk0. apply in_app_or in Hin. destruct Hin as [Hin|[<-|[]]].
+    + apply (wf_load h W tk Hin Hk0).
+    + cbn in Hk0 |- *. rewrite (Hk Hk0). reflexivity.
+  - intros tk Hin. apply in_app_or in Hin. destruct Hin as [Hin|[<-|[]]].
+    + apply (wf_acc h W tk Hin).
+    + cbn [t_ok t_err t_exp t_id].
+      assert (open_count (in_flight h) (next_task h) = 0) as ->; [|reflexivity].
+      unfold open_count. destruct (filter _ (in_flight h)) as [|[r x] l] eqn:E; [reflexivity|].
+      assert (Hin : In (r, x) (filter (fun e => Nat.eqb (snd e) (next_task h)) (in_flight h))) by (rewrite E; left; reflexivity).
+      apply filter_In in Hin. destruct Hin as [Hin Hx]. cbn in Hx. apply Nat.eqb_eq in Hx. subst x.
+      destruct (wf_live h W r _ Hin) as [_ [tk [B C]]]. pose proof (wf_tid h W tk B). lia.
+Qed.
+
+Lemma NoDup_app_intro : forall (A : Type) (a b : list A),
+    NoDup a -> NoDup b -> (forall x, In x a -> ~ In x b) -> NoDup (a ++ b).
+Proof.
+  induction a as [|x a IH]; intros b Ha Hb Hd; cbn [app]; [exact Hb|].
+  inversion Ha; subst. constructor.
+  - intros Hin. apply in_app_or in Hin. destruct Hin as [Hin|Hin]; [contradiction|].
+    apply (Hd x (or_introl eq_refl) Hin).
+  - apply IH; [assumption|assumption|]. intros y Hy. apply Hd. right. exact Hy.
+Qed.
+
+Lemma NoDup_map_fst_filter : forall (A B : Type) (p : A * B -> bool) l,
+    NoDup (map fst l) -> NoDup (map fst (filter p l)).
+Proof.
+  induction l as [|e l IH]; intros H; cbn [filter map]; [constructor|].
+  cbn [map] in H. inversion H; subst. destruct (p e); [|apply IH; assumption].
+  cbn [map]. constructor; [|apply IH; assumption].
+  intros Hin. apply in_map_iff in Hin. destruct Hin as [e' [E Hin]].
+  apply filter_In in Hin. destruct Hin as [Hin _]. apply H2. rewrite <- E. apply in_map. exact Hin.
+Qed.
+
+Lemma targets_nodup : forall h, WF h -> NoDup (targets h).
+Proof. intros h W. unfold targets. apply NoDup_map_fst_filter. apply (wf_workers h W). Qed.
+
+Lemma bump_exp_id : forall n tid t, t_id (bump_exp n tid t) = t_id t.
+Proof. intros. unfold bump_exp. destruct (Nat.eqb (t_id t) tid); reflexivity. Qed.
+Lemma bump_exp_kind : forall n tid t, t_kind (bump_exp n tid t) = t_kind t.
+Proof. intros. unfold bump_exp. destruct (Nat.eqb (t_id t) tid); reflexivity. Qed.
+Lemma bump_exp_deadline : forall n tid t, t_deadline (bump_exp n tid t) = t_deadline t.
+Proof. intros. unfold bump_exp. destruct (Nat.eqb (t_id t) tid); reflexivity. Qed.
+Lemma bump_exp_client : forall n tid t, t_client (bump_exp n tid t) = t_client t.
+Proof. intros. unfold bump_exp. destruct (Nat.eqb (t_id t) tid); reflexivity. Qed.
+Lemma bump_exp_ok : forall n tid t, t_ok (bump_exp n tid t) = t_ok t.
+Proof. intros. unfold bump_exp. destruct (Nat.eqb (t_id t) tid); reflexivity. Qed.
+Lemma bump_exp_err : forall n tid t, t_err (bump_exp n tid t) = t_err t.
+Proof. intros. unfold bump_exp. destruct (Nat.eqb (t_id t) tid); reflexivity. Qed.
+Lemma bump_exp_exp : forall n tid t,
+    t_exp (bump_exp n tid t) = t_exp t + if Nat.eqb (t_id t) tid then n else 0.
+Proof. intros. unfold bump_exp. destruct (Nat.eqb (t_id t) tid); cbn [t_exp]; lia. Qed.
+
+Definition fresh_idx (h : hub) (tid idx : nat) : Prop :=
+  forall r x, In (r, x) (in_flight h) -> tid_of r = tid -> snd r < idx.
+
+Lemma scatter_on_wf : forall h rq tid idx h' os,
+    WF h -> (exists t, In t (tasks h) /\ t_id t = tid) -> fresh_idx h tid idx ->
+    scatter_on h rq tid idx = (h', os) ->
+    WF h' /\ fresh_idx h' tid (S idx) /\
+    tasks h' = map (bump_exp (length (targets h)) tid) (tasks h) /\
+    in_flight h' = in_flight h ++ map (fun w => ((w, tid, idx), tid)) (targets h) /\
+    os = map (fun w => OSend w (w, tid, idx) rq) (targets h) /\
+    workers h' = workers h /\ next_task h' = next_task h /\ next_rq h' = next_rq h /\
+    now h' = now h /\ gone h' = gone h /\ stopping h' = stopping h /\ timeout h' = timeout h.
+Proof.
+  intros h rq tid idx h' os W [t0 [Ht0 Hid0]] Hfresh H. subst tid. unfold scatter_on in H.
+  inversion H; subst h' os; clear H.
+  split; [|split; [|repeat split; reflexivity]].
+  - constructor; cbn [tasks in_flight workers next_task next_rq set_tasks set_in_flight].
+    + intros t Hin. apply in_map_iff in Hin. destruct Hin as [t1 [<- Hin]].
+      rewrite bump_exp_id. apply (wf_tid h W t1 Hin).
+    + rewrite map_map. erewrite map_ext; [apply (wf_nodup_id h W)|]. intros. apply bump_exp_id.
+    + rewrite map_app. apply NoDup_app_intro.
+      * apply (wf_keys h W).
+      * rewrite map_map. cbn [fst].
+        assert (Hinj : forall l, NoDup l -> NoDup (map (fun w : nat => (w, t_id t0, idx)) l)).
+        { induction l as [|w l IHl]; intros Hl; cbn [map]; [constructor|]. inversion Hl; subst.
+          constructor; [|apply IHl; assumption].
+          intros Hin. apply in_map_iff in Hin. destruct Hin as [w' [E Hin]]. inversion E; subst. contradiction. }
+        apply Hinj. apply targets_nodup. exact W.
+      * intros r Hin Hin2. apply in_map_iff in Hin. destruct Hin as [[r' x] [E Hin]]. cbn [fst] in E. subst r'.
+        rewrite map_map in Hin2. cbn [fst] in Hin2. apply in_map_iff in Hin2. destruct Hin2 as [w [E _]].
+        subst r. specialize (Hfresh _ _ Hin eq_refl). cbn [snd] in Hfresh. lia.
+    + intros r x Hin. apply in_app_or in Hin. destruct Hin as [Hin|Hin].
+      * destruct (wf_live h W r x Hin) as [A [t1 [B C]]]. split; [exact A|].
+        exists (bump_exp (length (targets h)) (t_id t0) t1). split; [apply in_map; exact B|].
+        rewrite bump_exp_id. exact C.
+      * apply in_map_iff in Hin. destruct Hin as [w [E _]]. inversion E; subst. split; [reflexivity|].
+        exists (bump_exp (length (targets h)) (t_id t0) t0). split; [apply in_map; exact Ht0|].
+        apply bump_exp_id.
+    + apply (wf_workers h W).
+    + intros t Hin Hk. apply in_map_iff in Hin. destruct Hin as [t1 [<- Hin]].
+      rewrite bump_exp_kind in Hk. rewrite bump_exp_deadline. apply (wf_load h W t1 Hin Hk).
+    + intros t Hin. apply in_map_iff in Hin. destruct Hin as [t1 [<- Hin]].
+      rewrite bump_exp_ok, bump_exp_err, bump_exp_exp, bump_exp_id, open_count_app, open_count_sends.
+      pose proof (wf_acc h W t1 Hin) as Ha. rewrite (Nat.eqb_sym (t_id t0) (t_id t1)).
+      destruct (Nat.eqb (t_id t1) (t_id t0)); lia.
+  - intros r x Hin Htid. cbn [in_flight set_tasks set_in_flight] in Hin. apply in_app_or in Hin.
+    destruct Hin as [Hin|Hin].
+    + specialize (Hfresh _ _ Hin Htid). lia.
+    + apply in_map_iff in Hin. destruct Hin as [w [E _]]. inversion E; subst. cbn [snd]. lia.
+Qed.
+
+(** a task transformer that only touches the expected-responses budget *)
+Definition exp_only (g : task -> task) : Prop :=
+  forall t, t_id (g t) = t_id t /\ t_rq (g t) = t_rq t /\ t_kind (g t) = t_kind t /\
+            t_deadline (g t) = t_deadline t /\ t_ok (g t) = t_ok t /\ t_err (g t) = t_err t /\
+            t_client (g t) = t_client t.
+
+Record Scattered (h : hub) (rq tid : nat) (h' : hub) (os : list out) : Prop := mkSc {
+  sc_wf : WF h';
+  sc_tasks : exists g, tasks h' = map g (tasks h) /\ exp_only g;
+  sc_incl : incl (in_flight h) (in_flight h');
+  sc_outs : forall o, In o os -> exists w r, o = OSend w r rq /\ In (r, tid) (in_flight h');
+  sc_workers : workers h' = workers h;
+  sc_next_task : next_task h' = next_task h;
+  sc_next_rq : next_rq h' = next_rq h;
+  sc_now : now h' = now h;
+  sc_gone : gone h' = gone h;
+  sc_stopping : stopping h' = stopping h;
+  sc_timeout : timeout h' = timeout h;
+}.
+
+Lemma exp_only_bump : forall n tid, exp_only (bump_exp n tid).
+Proof.
+  intros n tid t. repeat split;
+    [apply bump_exp_id|apply bump_exp_rq|apply bump_exp_kind|apply bump_exp_deadline|
+     apply bump_exp_ok|apply bump_exp_err|apply bump_exp_client].
+Qed.
+
+Lemma scatter_on_scattered : forall h rq tid idx h' os,
+    WF h -> (exists t, In t (tasks h) /\ t_id t = tid) -> fresh_idx h tid idx ->
+    scatter_on h rq tid idx = (h', os) ->
+    Scattered h rq tid h' os /\ fresh_idx h' tid (S idx).
+Proof.
+  intros h rq tid idx h' os W Ht Hf H.
+  destruct (scatter_on_wf _ _ _ _ _ _ W Ht Hf H) as
+      [W' [F' [Ets [Eif [Eos [E1 [E2 [E3 [E4 [E5 [E6 E7]]]]]]]]]]].
+  split; [|exact F'].
+  constructor; try assumption.
+  - eexists. split; [exact Ets|apply exp_only_bump].
+  - rewrite Eif. intros x Hx. apply in_or_app. left. exact Hx.
+  - intros o Hin. rewrite Eos in Hin. apply in_map_iff in Hin. destruct Hin as [w [<- Hw]].
+    exists w, (w, tid, idx). split; [reflexivity|]. rewrite Eif. apply in_or_app. right.
+    apply (in_map (fun w0 => ((w0, tid, idx), tid))). exact Hw.
+Qed.
+
+Lemma scattered_task_exists : forall h rq tid h' os,
+    Scattered h rq tid h' os -> (exists t, In t (tasks h) /\ t_id t = tid) ->
+    exists t, In t (tasks h') /\ t_id t = tid.
+Proof.
+  intros h rq tid h' os S [t [Hin Hid]]. destruct (sc_tasks _ _ _ _ _ S) as [g [Eg Hg]].
+  exists (g t). split; [rewrite Eg; apply in_map; exact Hin|]. destruct (Hg t) as [A _]. congruence.
+Qed.
+
+Lemma scatter_many_scattered : forall idxs h rq tid idx h' os,
+    idxs = seq idx (length idxs) ->
+    WF h -> (exists t, In t (tasks h) /\ t_id t = tid) -> fresh_idx h tid idx ->
+    scatter_many h rq tid idxs = (h', os) ->
+    Scattered h rq tid h' os.
+Proof.
+  induction idxs as [|i idxs IH]; intros h rq tid idx h' os Hseq W Ht Hf H; cbn [scatter_many] in H.
+  - inversion H; subst; clear H. constructor; try reflexivity; try assumption.
+    + exists (fun t => t). split; [symmetry; apply map_id|]. intros t. repeat split.
+    + intros x Hx. exact Hx.
+    + intros o [].
+  - cbn [length seq] in Hseq. inversion Hseq as [[Hi Hrest]]. subst i.
+    destruct (scatter_on h rq tid idx) as [h1 o1] eqn:E1.
+    destruct (scatter_many h1 rq tid idxs) as [h2 o2] eqn:E2.
+    inversion H; subst h' os; clear H.
+    destruct (scatter_on_scattered _ _ _ _ _ _ W Ht Hf E1) as [S1 F1].
+    pose proof (scattered_task_exists _ _ _ _ _ S1 Ht) as Ht1.
+    assert (Hseq2 : idxs = seq (S idx) (length idxs)) by exact Hrest.
+    specialize (IH h1 rq tid (S idx) h2 o2 Hseq2 (sc_wf _ _ _ _ _ S1) Ht1 F1 E2) as S2.
+    destruct (sc_tasks _ _ _ _ _ S1) as [g1 [Eg1 Hg1]]. destruct (sc_tasks _ _ _ _ _ S2) as [g2 [Eg2 Hg2]].
+    constructor.
+    + apply (sc_wf _ _ _ _ _ S2).
+    + exists (fun t => g2 (g1 t)). split; [rewrite Eg2, Eg1, map_map; reflexivity|].
+      intros t. destruct (Hg1 t) as [A1 [A2 [A3 [A4 [A5 [A6 A7]]]]]].
+      destruct (Hg2 (g1 t)) as [B1 [B2 [B3 [B4 [B5 [B6 B7]]]]]]. repeat split; congruence.
+    + intros x Hx. apply (sc_incl _ _ _ _ _ S2). apply (sc_incl _ _ _ _ _ S1). exact Hx.
+    + intros o Hin. apply in_app_or in Hin. destruct Hin as [Hin|Hin].
+      * destruct (sc_outs _ _ _ _ _ S1 o Hin) as [w [r [Eo Hr]]]. exists w, r. split; [exact Eo|].
+        apply (sc_incl _ _ _ _ _ S2). exact Hr.
+      * apply (sc_outs _ _ _ _ _ S2 o Hin).
+    + rewrite (sc_workers _ _ _ _ _ S2). apply (sc_workers _ _ _ _ _ S1).
+    + rewrite (sc_next_task _ _ _ _ _ S2). apply (sc_next_task _ _ _ _ _ S1).
+    + rewrite (sc_next_rq _ _ _ _ _ S2). apply (sc_next_rq _ _ _ _ _ S1).
+    + rewrite (sc_now _ _ _ _ _ S2). apply (sc_now _ _ _ _ _ S1).
+    + rewrite (sc_gone _ _ _ _ _ S2). apply (sc_gone _ _ _ _ _ S1).
+    + rewrite (sc_stopping _ _ _ _ _ S2). apply (sc_stopping _ _ _ _ _ S1).
+    + rewrite (sc_timeout _ _ _ _ _ S2). apply (sc_timeout _ _ _ _ _ S1).
+Qed.
+
+(** ** The invariant carried along a history *)
+Record Inv (es : list event) (h : hub) (os : list out) : Prop := mkInv {
+  inv_wf : WF h;
+  inv_rq : RqB h (next_rq h);
+  inv_fresh : forall w r rq, In (OSend w r rq) os -> rq < next_rq h;
+  inv_sent : forall t, In t (tasks h) -> forall w r, In (OSend w r (t_rq t)) os ->
+             In (r, t_id t) (in_flight h) \/ acked es r \/ 1 <= t_err t;
+}.
+
+Lemma acked_mono : forall es e r, acked es r -> acked (es ++ [e]) r.
+Proof. intros es e r [w H]. exists w. apply in_or_app. left. exact H. Qed.
+
+Lemma inv_init : forall nw tm, Inv [] (init nw tm) [].
+Proof.
+  intros. constructor.
+  - apply wf_init.
+  - intros t [].
+  - intros w r rq [].
+  - intros t [].
+Qed.
+
+(** the part of [client_request] that creates a task and scatters *)
+Lemma spawn_inv : forall es h os c k tm (sc : hub -> nat -> nat -> hub * list out) v,
+    Inv es h os -> (k = KLoad -> tm = TNone) ->
+    (forall h1 tid h2 o,
+        WF h1 -> (exists t, In t (tasks h1) /\ t_id t = tid) -> fresh_idx h1 tid 0 ->
+        sc h1 (next_rq h) tid = (h2, o) -> Scattered h1 (next_rq h) tid h2 o) ->
+    forall h1 tid h2 o pre post,
+      new_task h c k tm = (h1, tid) -> sc h1 (next_rq h) tid = (h2, o) ->
+      (forall x, In x (pre ++ post) -> exists c' q, x = ONotice c' q) ->
+      Inv (es ++ [EClient c v]) (bump_rq h2) (os ++ pre ++ o ++ post).
+Proof.
+  intros es h os c k tm sc v I Hk Hsc h1 tid h2 o pre post E1 E2 Hpp.
+  destruct (new_task_wf _ _ _ _ _ _ (inv_wf _ _ _ I) E1 Hk) as
+      [W1 [Etid [Ent [Eif [Ew [Enr [Enow [Eg [Est [Etm Ets]]]]]]]]]].
+  assert (Hex : exists t, In t (tasks h1) /\ t_id t = tid).
+  { eexists. split; [rewrite Ets; apply in_or_app; right; left; reflexivity|reflexivity]. }
+  assert (Hfr : fresh_idx h1 tid 0).
+  { intros r x Hin Hr. rewrite Eif in Hin. destruct (wf_live _ (inv_wf _ _ _ I) r x Hin) as [A [t0 [B C]]].
+    pose proof (wf_tid _ (inv_wf _ _ _ I) t0 B). unfold tid_of in *. lia. }
+  pose proof (Hsc _ _ _ _ W1 Hex Hfr E2) as S.
+  destruct (sc_tasks _ _ _ _ _ S) as [g [Eg2 Hg]].
+  assert (Hsend : forall w r q, In (OSend w r q) (os ++ pre ++ o ++ post) ->
+                               In (OSend w r q) os \/ (In (OSend w r q) o /\ q = next_rq h /\ In (r, tid) (in_flight h2))).
+  { intros w r q Hin. apply in_app_or in Hin. destruct Hin as [Hin|Hin]; [left; exact Hin|].
+    apply in_app_or in Hin. destruct Hin as [Hin|Hin].
+    - destruct (Hpp _ (in_or_app _ _ _ (or_introl Hin))) as [c' [q' Hx]]. discriminate.
+    - apply in_app_or in Hin. destruct Hin as [Hin|Hin].
+      + right. destruct (sc_outs _ _ _ _ _ S _ Hin) as [w' [r' [Eo Hr]]]. inversion Eo; subst. auto.
+      + destruct (Hpp _ (in_or_app _ _ _ (or_intror Hin))) as [c' [q' Hx]]. discriminate. }
+  constructor.
+  - (* WF *) destruct (sc_wf _ _ _ _ _ S). constructor; assumption.
+  - (* RqB *) intros t Hin. cbn [bump_rq tasks next_rq] in *. rewrite Eg2 in Hin.
+    apply in_map_iff in Hin. destruct Hin as [t1 [<- Hin]]. destruct (Hg t1) as [_ [A _]]. rewrite A.
+    rewrite (sc_next_rq _ _ _ _ _ S), Enr. rewrite Ets in Hin. apply in_app_or in Hin.
+    destruct Hin as [Hin|[<-|[]]]; [pose proof (inv_rq _ _ _ I t1 Hin); lia|cbn; lia].
+  - (* fresh *) intros w r q Hin. cbn [bump_rq next_rq]. rewrite (sc_next_rq _ _ _ _ _ S), Enr.
+    destruct (Hsend _ _ _ Hin) as [Hin'|[_ [-> _]]]; [pose proof (inv_fresh _ _ _ I _ _ _ Hin'); lia|lia].
+  - (* sent *) intros t Hin w r Hs. cbn [bump_rq tasks in_flight] in *. rewrite Eg2 in Hin.
+    apply in_map_iff in Hin. destruct Hin as [t1 [<- Hin]].
+    destruct (Hg t1) as [Gid [Grq [_ [_ [_ [Gerr _]]]]]]. rewrite Grq in Hs. rewrite Gid, Gerr.
+    rewrite Ets in Hin. apply in_app_or in Hin. destruct Hin as [Hin|[<-|[]]].
+    + destruct (Hsend _ _ _ Hs) as [Hs'|[_ [Hq _]]].
+      * destruct (inv_sent _ _ _ I t1 Hin w r Hs') as [A|[A|A]].
+        -- left. apply (sc_incl _ _ _ _ _ S). rewrite Eif. exact A.
+        -- right. left. apply acked_mono. exact A.
+        -- right. right. exact A.
+      * pose proof (inv_rq _ _ _ I t1 Hin). lia.
+    + cbn [t_rq t_id t_err] in *. destruct (Hsend _ _ _ Hs) as [Hs'|[_ [_ Hr]]].
+      * pose proof (inv_fresh _ _ _ I _ _ _ Hs'). lia.
+      * left. exact Hr.
+Qed.
+
+Lemma bump_only_inv : forall es h os e fin,
+    Inv es h os -> (forall w r q, ~ In (OSend w r q) fin) ->
+    Inv (es ++ [e]) (bump_rq h) (os ++ fin).
+Proof.
+  intros es h os e fin I Hf. constructor.
+  - destruct (inv_wf _ _ _ I). constructor; assumption.
+  - intros t Hin. cbn [bump_rq tasks next_rq] in *. pose proof (inv_rq _ _ _ I t Hin). lia.
+  - intros w r q Hin. cbn [bump_rq next_rq]. apply in_app_or in Hin.
+    destruct Hin as [Hin|Hin]; [pose proof (inv_fresh _ _ _ I _ _ _ Hin); lia|exfalso; eapply Hf; eauto].
+  - intros t Hin w r Hs. cbn [bump_rq tasks in_flight] in *. apply in_app_or in Hs.
+    destruct Hs as [Hs|Hs]; [|exfalso; eapply Hf; eauto].
+    destruct (inv_sent _ _ _ I t Hin w r Hs) as [A|[A|A]]; auto. right. left. apply acked_mono. exact A.
+Qed.
+
+Lemma client_request_inv : forall es h os c v h' os',
+    Inv es h os -> client_request h c v = (h', os') ->
+    Inv (es ++ [EClient c v]) h' (os ++ os').
+Proof.
+  intros es h os c v h' os' I H. unfold client_request in H.
+  assert (Hone : forall k tm, (k = KLoad -> tm = TNone) ->
+            forall h1 tid h2 o, new_task h c k tm = (h1, tid) -> scatter_on h1 (next_rq h) tid 0 = (h2, o) ->
+            Inv (es ++ [EClient c v]) (bump_rq h2) (os ++ ONotice c (next_rq h) :: o)).
+  { intros k tm Hk h1 tid h2 o E1 E2.
+    pose proof (spawn_inv es h os c k tm (fun h1 rq tid => scatter_on h1 rq tid 0) v I Hk) as Hs.
+    assert (Hsc : forall h1 tid h2 o, WF h1 -> (exists t, In t (tasks h1) /\ t_id t = tid) -> fresh_idx h1 tid 0 ->
+                   scatter_on h1 (next_rq h) tid 0 = (h2, o) -> Scattered h1 (next_rq h) tid h2 o).
+    { intros a b c0 d Wa Ha Fa Ea. apply (scatter_on_scattered _ _ _ _ _ _ Wa Ha Fa Ea). }
+    specialize (Hs Hsc h1 tid h2 o [ONotice c (next_rq h)] [] E1 E2).
+    rewrite !app_nil_r in Hs. cbn [app] in Hs. apply Hs.
+    intros x Hin. destruct Hin as [<-|[]]. eauto. }
+  destruct v as [| | | | | | |n].
+  - destruct (new_task h c KWorker tmo_worker) as [h1 tid] eqn:E1.
+    destruct (scatter_on h1 (next_rq h) tid 0) as [h2 o] eqn:E2. inversion H; subst; clear H.
+    apply (Hone KWorker tmo_worker ltac:(discriminate) _ _ _ _ E1 E2).
+  - inversion H; subst; clear H. apply bump_only_inv; [exact I|]. intros w r q [Hx|[]]. discriminate.
+  - destruct (new_task h c KQuery tmo_query) as [h1 tid] eqn:E1.
+    destruct (scatter_on h1 (next_rq h) tid 0) as [h2 o] eqn:E2. inversion H; subst; clear H.
+    apply (Hone KQuery tmo_query ltac:(discriminate) _ _ _ _ E1 E2).
+  - inversion H; subst; clear H. apply bump_only_inv; [exact I|]. intros w r q [Hx|[]]. discriminate.
+  - inversion H; subst; clear H. apply bump_only_inv; [exact I|].
+    intros w r q Hin. try rewrite gen_unserved in Hin. destruct Hin as [Hx|[]]. discriminate.
+  - destruct (new_task h c (KStop true) tmo_hardstop) as [h1 tid] eqn:E1.
+    destruct (scatter_on h1 (next_rq h) tid 0) as [h2 o] eqn:E2. inversion H; subst; clear H.
+    apply (Hone (KStop true) tmo_hardstop ltac:(discriminate) _ _ _ _ E1 E2).
+  - destruct (new_task h c (KStop false) tmo_softstop) as [h1 tid] eqn:E1.
+    destruct (scatter_on h1 (next_rq h) tid 0) as [h2 o] eqn:E2. inversion H; subst; clear H.
+    apply (Hone (KStop false) tmo_softstop ltac:(discriminate) _ _ _ _ E1 E2).
+  - destruct (new_task h c KLoad tmo_load) as [h1 tid] eqn:E1.
+    destruct (scatter_many h1 (next_rq h) tid (seq 1 n)) as [h2 o] eqn:E2. inversion H; subst; clear H.
+    pose proof (spawn_inv es h os c KLoad tmo_load (fun h1 rq tid => scatter_many h1 rq tid (seq 1 n)) (VLoad n) I
+                          (fun _ => proj2 (proj2 (proj2 (proj2 gen_tmo))))) as Hs.
+    assert (Hsc : forall h1 tid h2 o, WF h1 -> (exists t, In t (tasks h1) /\ t_id t = tid) -> fresh_idx h1 tid 0 ->
+                   scatter_many h1 (next_rq h) tid (seq 1 n) = (h2, o) -> Scattered h1 (next_rq h) tid h2 o).
+    { intros a b c0 d Wa Ha Fa Ea.
+      apply (scatter_many_scattered (seq 1 n) a (next_rq h) b 1 c0 d); auto.
+      - rewrite seq_length. reflexivity.
+      - intros r x Hin Hr. specialize (Fa r x Hin Hr). lia. }
+    specialize (Hs Hsc h1 tid h2 o [ONotice c (next_rq h)] [ONotice c (next_rq h)] E1 E2).
+    cbn [app] in Hs |- *. apply Hs.
+    intros x [<-|[<-|[]]]; eauto.
+Qed.
+
+Lemma inv_es_mono : forall es h os e, Inv es h os -> Inv (es ++ [e]) h (os ++ []).
+Proof.
+  intros es h os e I. rewrite app_nil_r. destruct I as [W R F S]. constructor; try assumption.
+  intros t Hin w r Hs. destruct (S t Hin w r Hs) as [A|[A|A]]; auto. right. left. apply acked_mono. exact A.
+Qed.
+
+Lemma apply_arm_fields : forall a t,
+    t_id (apply_arm a t) = t_id t /\ t_rq (apply_arm a t) = t_rq t /\ t_kind (apply_arm a t) = t_kind t /\
+    t_deadline (apply_arm a t) = t_deadline t /\ t_exp (apply_arm a t) = t_exp t /\
+    t_client (apply_arm a t) = t_client t /\
+    t_ok (apply_arm a t) = t_ok t + (match a with IncOk => 1 | _ => 0 end) /\
+    t_err (apply_arm a t) = t_err t + (match a with IncErr => 1 | _ => 0 end).
+Proof. intros [] t; cbn; repeat split; lia. Qed.
+
+Definition upd (a : arm) (tid : nat) (t : task) : task :=
+  if Nat.eqb (t_id t) tid then apply_arm a t else t.
+
+Lemma upd_fields : forall a tid t,
+    t_id (upd a tid t) = t_id t /\ t_rq (upd a tid t) = t_rq t /\ t_kind (upd a tid t) = t_kind t /\
+    t_deadline (upd a tid t) = t_deadline t /\ t_exp (upd a tid t) = t_exp t /\
+    t_client (upd a tid t) = t_client t /\
+    t_ok (upd a tid t) = t_ok t + (if Nat.eqb (t_id t) tid then match a with IncOk => 1 | _ => 0 end else 0) /\
+    t_err (upd a tid t) = t_err t + (if Nat.eqb (t_id t) tid then match a with IncErr => 1 | _ => 0 end else 0).
+Proof.
+  intros a tid t. unfold upd. destruct (Nat.eqb (t_id t) tid).
+  - apply apply_arm_fields.
+  - repeat split; lia.
+Qed.
+
+Lemma key_unique : forall (f : list (rid * nat)) r x y,
+    NoDup (map fst f) -> In (r, x) f -> In (r, y) f -> x = y.
+Proof.
+  induction f as [|e f IH]; intros r x y Hnd Hx Hy; [destruct Hx|].
+  cbn [map] in Hnd. inversion Hnd; subst.
+  destruct Hx as [Hx|Hx]; destruct Hy as [Hy|Hy].
+  - congruence.
+  - subst e. exfalso. apply H1. apply (in_map fst f (r, y)). exact Hy.
+  - subst e. exfalso. apply H1. apply (in_map fst f (r, x)). exact Hx.
+  - eapply IH; eauto.
+Qed.
+
+(** the state change of a counted response, in one place *)
+Lemma response_inv : forall es h os w r st tid t0 (retire : bool) a,
+    Inv es h os -> In (r, tid) (in_flight h) -> In t0 (tasks h) -> t_id t0 = tid ->
+    a = on_message_arm st ->
+    retire = (match a with IncOk | IncErr => true | _ => false end) ->
+    forall os', (forall w' r' q, ~ In (OSend w' r' q) os') ->
+    Inv (es ++ [EResp w (Some r) st])
+        (set_in_flight (set_tasks h (map (fun t' => if Nat.eqb (t_id t') tid then apply_arm a t' else t') (tasks h)))
+                       (if retire then filter (fun e => negb (rid_eqb (fst e) r)) (in_flight h) else in_flight h))
+        (os ++ os').
+Proof.
+  intros es h os w r st tid t0 retire a I Hr Ht0 Hid Ha Hret os' Hos'.
+  change (fun t' => if Nat.eqb (t_id t') tid then apply_arm a t' else t') with (upd a tid).
+  pose proof (inv_wf _ _ _ I) as W.
+  set (f' := if retire then filter (fun e => negb (rid_eqb (fst e) r)) (in_flight h) else in_flight h).
+  assert (Hsub : forall e, In e f' -> In e (in_flight h)).
+  { intros e He. unfold f' in He. destruct retire; [apply filter_In in He; tauto|exact He]. }
+  assert (Hoc : forall x, open_count f' x + (if retire then if Nat.eqb tid x then 1 else 0 else 0)
+                          = open_count (in_flight h) x).
+  { intros x. unfold f'. destruct retire; [|lia]. apply open_count_remove; [apply (wf_keys _ W)|exact Hr]. }
+  constructor.
+  - constructor; cbn [tasks in_flight workers next_task next_rq set_tasks set_in_flight].
+    + intros t Hin. apply in_map_iff in Hin. destruct Hin as [t1 [<- Hin]].
+      destruct (upd_fields a tid t1) as [-> _]. apply (wf_tid _ W t1 Hin).
+    + rewrite map_map. erewrite map_ext; [apply (wf_nodup_id _ W)|]. intros t1. apply upd_fields.
+    + unfold f'. destruct retire; [apply NoDup_map_fst_filter|]; apply (wf_keys _ W).
+    + intros r1 x Hin. destruct (wf_live _ W r1 x (Hsub _ Hin)) as [A [t1 [B C]]]. split; [exact A|].
+      exists (upd a tid t1). split; [apply in_map; exact B|]. destruct (upd_fields a tid t1) as [-> _]. exact C.
+    + apply (wf_workers _ W).
+    + intros t Hin Hk. apply in_map_iff in Hin. destruct Hin as [t1 [<- Hin]].
+      destruct (upd_fields a tid t1) as [_ [_ [Ek [Ed _]]]]. rewrite Ek in Hk. rewrite Ed.
+      apply (wf_load _ W t1 Hin Hk).
+    + intros t Hin. apply in_map_iff in Hin. destruct Hin as [t1 [<- Hin]].
+      destruct (upd_fields a tid t1) as [Eid [_ [_ [_ [Eexp [_ [Eok Eerr]]]]]]].
+      rewrite Eid, Eexp, Eok, Eerr. pose proof (wf_acc _ W t1 Hin) as Hacc. specialize (Hoc (t_id t1)).
+      rewrite (Nat.eqb_sym tid (t_id t1)) in Hoc.
+      subst retire. destruct (Nat.eqb (t_id t1) tid); destruct a; lia.
+  - intros t Hin. cbn [tasks set_tasks set_in_flight next_rq] in *. apply in_map_iff in Hin.
+    destruct Hin as [t1 [<- Hin]]. destruct (upd_fields a tid t1) as [_ [-> _]]. apply (inv_rq _ _ _ I t1 Hin).
+  - intros w' r' q Hin. cbn [set_tasks set_in_flight next_rq]. apply in_app_or in Hin.
+    destruct Hin as [Hin|Hin]; [apply (inv_fresh _ _ _ I _ _ _ Hin)|exfalso; eapply Hos'; eauto].
+  - intros t Hin w' r' Hs. cbn [tasks in_flight set_tasks set_in_flight] in *. apply in_map_iff in Hin.
+    destruct Hin as [t1 [<- Hin]].
+    destruct (upd_fields a tid t1) as [Eid [Erq [_ [_ [_ [_ [_ Eerr]]]]]]]. rewrite Erq in Hs. rewrite Eid, Eerr.
+    apply in_app_or in Hs. destruct Hs as [Hs|Hs]; [|exfalso; eapply Hos'; eauto].
+    destruct (inv_sent _ _ _ I t1 Hin w' r' Hs) as [A|[A|A]].
+    + destruct (rid_eqb r' r) eqn:Er.
+      * apply rid_eqb_eq in Er. subst r'.
+        pose proof (key_unique _ _ _ _ (wf_keys _ W) A Hr) as Et. rewrite Et, Nat.eqb_refl.
+        destruct a eqn:Ea; subst retire; unfold f'.
+        -- right. left. exists w. apply in_or_app. right. left.
+           destruct st; cbn in Ha; try discriminate. reflexivity.
+        -- right. right. lia.
+        -- left. rewrite <- Et. exact A.
+        -- left. rewrite <- Et. exact A.
+      * left. unfold f'. destruct retire; [|exact A]. apply filter_In. split; [exact A|].
+        cbn [fst]. rewrite Er. reflexivity.
+    + right. left. apply acked_mono. exact A.
+    + right. right. lia.
+Qed.
+
+Lemma worker_response_inv : forall es h os w r st h' os',
+    Inv es h os -> worker_response h w r st = (h', os') ->
+    Inv (es ++ [EResp w r st]) h' (os ++ os').
+Proof.
+  intros es h os w r st h' os' I H. unfold worker_response in H.
+  destruct r as [r|]; [|inversion H; subst; apply inv_es_mono; exact I].
+  destruct (lookup_rid r (in_flight h)) as [tid|] eqn:El; [|inversion H; subst; apply inv_es_mono; exact I].
+  destruct (find_task tid (tasks h)) as [t0|] eqn:Ef; [|inversion H; subst; apply inv_es_mono; exact I].
+  inversion H; subst h' os'; clear H.
+  apply lookup_rid_in in El. destruct (find_task_in _ _ _ Ef) as [Ht0 Hid].
+  eapply response_inv; eauto.
+  - apply gen_retire.
+  - intros w' r' q Hin. destruct (on_message_arm st); cbn in Hin; try contradiction.
+    destruct Hin as [Hx|[]]. discriminate.
+Qed.
+
+Lemma NoDup_map_filter : forall (A B : Type) (g : A -> B) (p : A -> bool) l,
+    NoDup (map g l) -> NoDup (map g (filter p l)).
+Proof.
+  induction l as [|e l IH]; intros H; cbn [filter map]; [constructor|].
+  cbn [map] in H. inversion H; subst. destruct (p e); [|apply IH; assumption].
+  cbn [map]. constructor; [|apply IH; assumption].
+  intros Hin. apply in_map_iff in Hin. destruct Hin as [e' [E Hin]].
+  apply filter_In in Hin. destruct Hin as [Hin _]. apply H2. rewrite <- E. apply in_map. exact Hin.
+Qed.
+
+Lemma id_unique : forall ts t t', NoDup (map t_id ts) -> In t ts -> In t' ts -> t_id t = t_id t' -> t = t'.
+Proof.
+  induction ts as [|x ts IH]; intros t t' Hnd Ht Ht' E; [destruct Ht|].
+  cbn [map] in Hnd. inversion Hnd; subst.
+  destruct Ht as [Ht|Ht]; destruct Ht' as [Ht'|Ht'].
+  - congruence.
+  - subst x. exfalso. apply H1. rewrite E. apply in_map. exact Ht'.
+  - subst x. exfalso. apply H1. rewrite <- E. apply in_map. exact Ht.
+  - apply IH; assumption.
+Qed.
+
+Definition fin_of (h : hub) : list task :=
+  filter (fun t => match finishes h t with Some _ => true | None => false end) (tasks h).
+Definition keep_of (h : hub) : list task :=
+  filter (fun t => match finishes h t with Some _ => false | None => true end) (tasks h).
+
+Lemma sweep_shape : forall h,
+    sweep h =
+    (mkHub (workers h) (keep_of h)
+           (filter (fun e : rid * nat => negb (existsb (fun t => Nat.eqb (t_id t) (snd e)) (fin_of h))) (in_flight h))
+           (now h) (next_task h) (next_rq h)
+           (stopping h || existsb (fun t => is_stop (t_kind t)) (fin_of h)) (timeout h) (gone h),
+     flat_map (fun t => match finishes h t with Some raw => finish_outs t raw | None => [] end) (tasks h)).
+Proof. intros h. unfold sweep. rewrite gen_purge. reflexivity. Qed.
+
+Lemma kept_not_purged : forall h t (e : rid * nat),
+    WF h -> In t (keep_of h) -> snd e = t_id t ->
+    negb (existsb (fun t' => Nat.eqb (t_id t') (snd e)) (fin_of h)) = true.
+Proof.
+  intros h t e W Hk He. apply negb_true_iff. apply not_true_is_false. intros Hex.
+  apply existsb_exists in Hex. destruct Hex as [t' [Hin Heq]]. apply Nat.eqb_eq in Heq.
+  unfold keep_of in Hk. unfold fin_of in Hin. apply filter_In in Hk. apply filter_In in Hin.
+  destruct Hk as [Hk1 Hk2]. destruct Hin as [Hi1 Hi2].
+  assert (t' = t) by (apply (id_unique (tasks h)); [apply (wf_nodup_id _ W)|assumption|assumption|congruence]).
+  subst t'. destruct (finishes h t); discriminate.
+Qed.
+
+Lemma finish_outs_no_send : forall t raw w r q, ~ In (OSend w r q) (finish_outs t raw).
+Proof.
+  intros t raw w r q Hin. unfold finish_outs in Hin. apply in_app_or in Hin.
+  destruct Hin as [Hin|[Hin|[]]]; [|discriminate].
+  apply in_map_iff in Hin. destruct Hin as [s [E _]]. discriminate.
+Qed.
+
+Lemma sweep_no_send : forall h w r q, ~ In (OSend w r q) (snd (sweep h)).
+Proof.
+  intros h w r q Hin. rewrite sweep_outs in Hin. apply in_flat_map in Hin. destruct Hin as [t [_ Hin]].
+  destruct (finishes h t); [eapply finish_outs_no_send; eauto|destruct Hin].
+Qed.
+
+Lemma sweep_inv : forall es h os, Inv es h os -> Inv es (fst (sweep h)) (os ++ snd (sweep h)).
+Proof.
+  intros es h os I. pose proof (inv_wf _ _ _ I) as W.
+  pose proof (sweep_no_send h) as Hns. rewrite sweep_shape in *. cbn [fst snd] in *.
+  assert (Hk : forall t, In t (keep_of h) -> In t (tasks h)).
+  { intros t Hin. unfold keep_of in Hin. apply filter_In in Hin. tauto. }
+  constructor.
+  - constructor; cbn [tasks in_flight workers next_task next_rq].
+    + intros t Hin. apply (wf_tid _ W t (Hk t Hin)).
+    + unfold keep_of. apply NoDup_map_filter. apply (wf_nodup_id _ W).
+    + apply NoDup_map_fst_filter. apply (wf_keys _ W).
+    + intros r x Hin. apply filter_In in Hin. destruct Hin as [Hin Hp]. cbn [snd] in Hp.
+      destruct (wf_live _ W r x Hin) as [A [t [B C]]]. split; [exact A|]. exists t. split; [|exact C].
+      unfold keep_of. apply filter_In. split; [exact B|].
+      destruct (finishes h t) eqn:Ef; [|reflexivity]. exfalso.
+      apply negb_true_iff in Hp. apply not_true_iff_false in Hp. apply Hp. apply existsb_exists.
+      exists t. split; [unfold fin_of; apply filter_In; split; [exact B|rewrite Ef; reflexivity]|].
+      apply Nat.eqb_eq. exact C.
+    + apply (wf_workers _ W).
+    + intros t Hin Hkd. apply (wf_load _ W t (Hk t Hin) Hkd).
+    + intros t Hin. rewrite open_count_filter_keep; [apply (wf_acc _ W t (Hk t Hin))|].
+      intros e _ He. eapply kept_not_purged; eauto.
+  - intros t Hin. cbn [tasks next_rq] in *. apply (inv_rq _ _ _ I t (Hk t Hin)).
+  - intros w r q Hin. cbn [next_rq]. apply in_app_or in Hin.
+    destruct Hin as [Hin|Hin]; [apply (inv_fresh _ _ _ I _ _ _ Hin)|exfalso; eapply Hns; eauto].
+  - intros t Hin w r Hs. cbn [tasks in_flight] in *. apply in_app_or in Hs.
+    destruct Hs as [Hs|Hs]; [|exfalso; eapply Hns; eauto].
+    destruct (inv_sent _ _ _ I t (Hk t Hin) w r Hs) as [A|[A|A]]; auto.
+    left. apply filter_In. split; [exact A|]. eapply kept_not_purged; eauto.
+Qed.
+
+Lemma inv_outs_equiv : forall es h os os2,
+    Inv es h os -> (forall w r q, In (OSend w r q) os2 <-> In (OSend w r q) os) -> Inv es h os2.
+Proof.
+  intros es h os os2 [W R F S] E. constructor; try assumption.
+  - intros w r q Hin. apply E in Hin. eapply F; eauto.
+  - intros t Hin w r Hs. apply E in Hs. eapply S; eauto.
+Qed.
+
+Lemma apply_event_inv : forall es h os e h' os',
+    Inv es h os -> apply_event h e = (h', os') -> Inv (es ++ [e]) h' (os ++ os').
+Proof.
+  intros es h os e h' os' I H. destruct e as [c v|w r st|w|c|dt]; cbn [apply_event] in H.
+  - eapply client_request_inv; eauto.
+  - eapply worker_response_inv; eauto.
+  - inversion H; subst; clear H. apply (inv_es_mono _ _ _ (EWorkerClosed w)) in I.
+    destruct I as [W R F S]. destruct W. constructor; [constructor|..]; try assumption.
+    cbn [workers]. rewrite map_map. erewrite map_ext; [eassumption|].
+    intros [a b]. cbn [fst]. destruct (Nat.eqb a w); reflexivity.
+  - inversion H; subst; clear H. apply (inv_es_mono _ _ _ (EClientClosed c)) in I.
+    destruct I as [W R F S]. destruct W. constructor; [constructor|..]; assumption.
+  - inversion H; subst; clear H. apply (inv_es_mono _ _ _ (ETick dt)) in I.
+    destruct I as [W R F S]. destruct W. constructor; [constructor|..]; assumption.
+Qed.
+
+Lemma in_send_filter : forall h w r q os, In (OSend w r q) (filter (deliverable h) os) <-> In (OSend w r q) os.
+Proof.
+  intros. rewrite filter_In. split; [tauto|]. intros H. split; [exact H|reflexivity].
+Qed.
+
+Lemma step_inv : forall es h os e h' os',
+    Inv es h os -> step h e = (h', os') -> Inv (es ++ [e]) h' (os ++ os').
+Proof.
+  intros es h os e h' os' I H. unfold step in H. destruct (stopping h).
+  - inversion H; subst. apply inv_es_mono. exact I.
+  - destruct (apply_event h e) as [h1 o1] eqn:E1. pose proof (apply_event_inv _ _ _ _ _ _ I E1) as I1.
+    pose proof (sweep_inv _ _ _ I1) as I2. destruct (sweep h1) as [h2 o2] eqn:E2. cbn [fst snd] in I2.
+    inversion H; subst h' os'; clear H.
+    eapply inv_outs_equiv; [exact I2|].
+    intros w r q. rewrite !in_app_iff, in_send_filter, !in_app_iff. tauto.
+Qed.
+
+Lemma run_inv : forall es2 es h os h' os',
+    Inv es h os -> run h es2 = (h', os') -> Inv (es ++ es2) h' (os ++ os').
+Proof.
+  induction es2 as [|e es2 IH]; intros es h os h' os' I H; cbn [run] in H.
+  - inversion H; subst. rewrite !app_nil_r. exact I.
+  - destruct (step h e) as [h1 o1] eqn:E1. destruct (run h1 es2) as [h2 o2] eqn:E2.
+    inversion H; subst; clear H.
+    pose proof (step_inv _ _ _ _ _ _ I E1) as I1. specialize (IH _ _ _ _ _ I1 E2).
+    rewrite <- app_assoc in IH. cbn [app] in IH. rewrite app_assoc. exact IH.
+Qed.
+
+Lemma reach_inv : forall nw tm es h os, run (init nw tm) es = (h, os) -> Inv es h os.
+Proof. intros. apply (run_inv es [] (init nw tm) [] h os (inv_init nw tm) H). Qed.
+
+(** ** where an ODone comes from *)
+Lemma finish_outs_done : forall t raw t' raw', In (ODone t' raw') (finish_outs t raw) -> t' = t /\ raw' = raw.
+Proof.
+  intros t raw t' raw' Hin. unfold finish_outs in Hin. apply in_app_or in Hin.
+  destruct Hin as [Hin|[Hin|[]]].
+  - apply in_map_iff in Hin. destruct Hin as [s [E _]]. discriminate.
+  - inversion Hin. auto.
+Qed.
+
+Lemma sweep_done : forall h t raw, In (ODone t raw) (snd (sweep h)) <-> In t (tasks h) /\ finishes h t = Some raw.
+Proof.
+  intros h t raw. rewrite sweep_outs. split.
+  - intros Hin. apply in_flat_map in Hin. destruct Hin as [t1 [Hin1 Hin]].
+    destruct (finishes h t1) as [raw1|] eqn:E; [|destruct Hin].
+    apply finish_outs_done in Hin. destruct Hin as [-> ->]. auto.
+  - intros [Hin E]. apply in_flat_map. exists t. split; [exact Hin|]. rewrite E.
+    unfold finish_outs. apply in_or_app. right. left. reflexivity.
+Qed.
+
+Definition no_done (os : list out) : Prop := forall t raw, ~ In (ODone t raw) os.
+
+Lemma scatter_on_no_done : forall h rq tid idx, no_done (snd (scatter_on h rq tid idx)).
+Proof. intros h rq tid idx t raw Hin. cbn in Hin. apply in_map_iff in Hin. destruct Hin as [w [E _]]. discriminate. Qed.
+
+Lemma scatter_many_no_done : forall idxs h rq tid, no_done (snd (scatter_many h rq tid idxs)).
+Proof.
+  induction idxs as [|i idxs IH]; intros h rq tid t raw Hin; cbn [scatter_many] in Hin.
+  - destruct Hin.
+  - pose proof (scatter_on_no_done h rq tid i) as H1. destruct (scatter_on h rq tid i) as [h1 o1].
+    pose proof (IH h1 rq tid) as H2. destruct (scatter_many h1 rq tid idxs) as [h2 o2].
+    cbn [snd] in *. apply in_app_or in Hin. destruct Hin; [eapply H1|eapply H2]; eauto.
+Qed.
+
+Lemma apply_event_no_done : forall h e, no_done (snd (apply_event h e)).
+Proof.
+  intros h e t raw Hin. destruct e as [c v|w r st|w|c|dt]; cbn [apply_event] in Hin; try (cbn in Hin; contradiction).
+  - unfold client_request in Hin. destruct v as [| | | | | | |n].
+    all: try (cbn in Hin; destruct Hin as [Hx|[]]; discriminate).
+    all: try (match type of Hin with context [new_task ?a ?b ?c ?d] => destruct (new_task a b c d) as [h1 tid] end;
+              pose proof (scatter_on_no_done h1 (next_rq h) tid 0) as Hn;
+              destruct (scatter_on h1 (next_rq h) tid 0) as [h2 o]; cbn [snd] in *;
+              destruct Hin as [Hx|Hin]; [discriminate|eapply Hn; eauto]).
+    + destruct (new_task h c KLoad tmo_load) as [h1 tid].
+      pose proof (scatter_many_no_done (seq 1 n) h1 (next_rq h) tid) as Hn.
+      destruct (scatter_many h1 (next_rq h) tid (seq 1 n)) as [h2 o]. cbn [snd] in *.
+      destruct Hin as [Hx|Hin]; [discriminate|]. apply in_app_or in Hin.
+      destruct Hin as [Hin|[Hx|[]]]; [eapply Hn; eauto|discriminate].
+  - unfold worker_response in Hin. destruct r as [r|]; [|destruct Hin].
+    destruct (lookup_rid r (in_flight h)); [|destruct Hin].
+    destruct (find_task n (tasks h)); [|destruct Hin]. cbn [snd] in Hin.
+    destruct (on_message_arm st); cbn in Hin; try contradiction. destruct Hin as [Hx|[]]. discriminate.
+Qed.
+
+Lemma step_done : forall h e h' os' t raw,
+    step h e = (h', os') -> In (ODone t raw) os' ->
+    stopping h = false /\ In t (tasks (fst (apply_event h e))) /\ finishes (fst (apply_event h e)) t = Some raw.
+Proof.
+  intros h e h' os' t raw H Hin. unfold step in H. destruct (stopping h); [inversion H; subst; destruct Hin|].
+  pose proof (apply_event_no_done h e) as Hnd. destruct (apply_event h e) as [h1 o1]. cbn [fst snd] in *.
+  pose proof (sweep_done h1 t raw) as Hs. destruct (sweep h1) as [h2 o2]. cbn [snd] in Hs.
+  inversion H; subst; clear H. apply filter_In in Hin. destruct Hin as [Hin _]. apply in_app_or in Hin.
+  destruct Hin as [Hin|Hin]; [exfalso; eapply Hnd; eauto|]. apply Hs in Hin. tauto.
+Qed.
+
+Lemma open_count_zero : forall f x r, open_count f x = 0 -> ~ In (r, x) f.
+Proof.
+  intros f x r H Hin. unfold open_count in H.
+  assert (Hf : In (r, x) (filter (fun e => Nat.eqb (snd e) x) f)).
+  { apply filter_In. split; [exact Hin|]. cbn. apply Nat.eqb_refl. }
+  destruct (filter _ f); [destruct Hf|discriminate].
+Qed.
+
+Lemma step_sends : forall h e h' os' w r q,
+    step h e = (h', os') -> In (OSend w r q) os' -> In (OSend w r q) (snd (apply_event h e)).
+Proof.
+  intros h e h' os' w r q H Hin. unfold step in H. destruct (stopping h); [inversion H; subst; destruct Hin|].
+  destruct (apply_event h e) as [h1 o1]. pose proof (sweep_no_send h1) as Hns. destruct (sweep h1) as [h2 o2].
+  cbn [snd] in *. inversion H; subst; clear H. apply in_send_filter in Hin. apply in_app_or in Hin.
+  destruct Hin as [Hin|Hin]; [exact Hin|exfalso; eapply Hns; eauto].
+Qed.
+
+(** ** ok_is_sound, at the task that finished *)
+Lemma ok_sound_done : forall nw tm es h os e h' os' t raw,
+    run (init nw tm) es = (h, os) -> step h e = (h', os') ->
+    In (ODone t raw) os' ->
+    t_kind t = KWorker \/ t_kind t = KLoad ->
+    In SOk (verdict (t_kind t) (t_err t) (on_finish_flag raw)) ->
+    raw = false /\ t_err t = 0 /\ t_exp t <= t_ok t /\
+    forall w r, In (OSend w r (t_rq t)) (os ++ os') -> acked (es ++ [e]) r.
+Proof.
+  intros nw tm es h os e h' os' t raw Hrun Hstep Hdone Hkind Hok.
+  pose proof (reach_inv _ _ _ _ _ Hrun) as I.
+  destruct (step_done _ _ _ _ _ _ Hstep Hdone) as [Hst [Hin Hfin]].
+  destruct (apply_event h e) as [h1 o1] eqn:E1. cbn [fst] in *.
+  pose proof (apply_event_inv _ _ _ _ _ _ I E1) as I1. pose proof (inv_wf _ _ _ I1) as W1.
+  assert (Hcore : raw = false /\ t_err t = 0 /\ t_exp t <= t_ok t).
+  { unfold finishes in Hfin. destruct gen_flags as [F1 [F2 F3]]. rewrite F1, F2, F3, gen_has_finished in Hfin.
+    destruct Hkind as [Hk|Hk]; rewrite Hk in Hok; cbn [verdict] in Hok.
+    - rewrite gen_worker_fails, gen_flag in Hok.
+      destruct (Nat.ltb 0 (t_err t)) eqn:El; [cbn in Hok; destruct Hok as [Hx|[]]; discriminate|].
+      destruct raw; [cbn in Hok; destruct Hok as [Hx|[]]; discriminate|].
+      apply Nat.ltb_ge in El. destruct (Nat.leb (t_exp t) (t_ok t + t_err t)) eqn:Ele.
+      + apply Nat.leb_le in Ele. repeat split; lia.
+      + destruct (t_deadline t); [destruct (expired n (now h1)); discriminate|discriminate].
+    - rewrite gen_load_ok in Hok. destruct (Nat.eqb (t_err t) 0) eqn:Ee; [|cbn in Hok; destruct Hok as [Hx|[]]; discriminate].
+      apply Nat.eqb_eq in Ee. rewrite (wf_load _ W1 t Hin Hk) in Hfin.
+      destruct (Nat.leb (t_exp t) (t_ok t + t_err t)) eqn:Ele; [|discriminate].
+      apply Nat.leb_le in Ele. inversion Hfin. repeat split; lia. }
+  destruct Hcore as [Hraw [Herr Hexp]]. repeat split; try assumption.
+  intros w r Hs.
+  assert (Hs1 : In (OSend w r (t_rq t)) (os ++ o1)).
+  { apply in_app_or in Hs. apply in_or_app. destruct Hs as [Hs|Hs]; [left; exact Hs|right].
+    pose proof (step_sends _ _ _ _ _ _ _ Hstep Hs) as Hx. rewrite E1 in Hx. exact Hx. }
+  pose proof (wf_acc _ W1 t Hin) as Hacc.
+  destruct (inv_sent _ _ _ I1 t Hin w r Hs1) as [A|[A|A]].
+  - exfalso. apply (open_count_zero (in_flight h1) (t_id t) r); [lia|exact A].
+  - exact A.
+  - lia.
+Qed.
+
+(** ** where a final answer comes from *)
+Lemma sweep_final : forall h c rq st,
+    In (OFinal c rq st) (snd (sweep h)) ->
+    exists t raw, In (ODone t raw) (snd (sweep h)) /\ t_rq t = rq /\ t_client t = c /\
+                  In st (verdict (t_kind t) (t_err t) (on_finish_flag raw)).
+Proof.
+  intros h c rq st Hin. rewrite sweep_outs in Hin. apply in_flat_map in Hin. destruct Hin as [t [Ht Hin]].
+  destruct (finishes h t) as [raw|] eqn:E; [|destruct Hin].
+  exists t, raw. split; [apply sweep_done; auto|].
+  unfold finish_outs in Hin. apply in_app_or in Hin. destruct Hin as [Hin|[Hx|[]]]; [|discriminate].
+  apply in_map_iff in Hin. destruct Hin as [s [Es Hs]]. inversion Es; subst. auto.
+Qed.
+
+Lemma client_request_final : forall h c v c' rq st,
+    In (OFinal c' rq st) (snd (client_request h c v)) ->
+    rq = next_rq h /\ c' = c /\ forall w r q, ~ In (OSend w r q) (snd (client_request h c v)).
+Proof.
+  intros h c v c' rq st Hin. unfold client_request in *. destruct v as [| | | | | | |n].
+  all: try (cbn in Hin |- *; destruct Hin as [Hx|[]]; inversion Hx; subst;
+            repeat split; intros w r q [Hy|[]]; discriminate).
+  all: try (match type of Hin with context [new_task ?a ?b ?c ?d] => destruct (new_task a b c d) as [h1 tid] end;
+            pose proof (scatter_on_facts h1 (next_rq h) tid 0) as Hf;
+            destruct (scatter_on h1 (next_rq h) tid 0) as [h2 o]; cbn [snd] in *;
+            destruct (Hf _ _ eq_refl) as [Hnf _];
+            destruct Hin as [Hx|Hin]; [discriminate|exfalso; eapply Hnf; eauto]).
+  - destruct (new_task h c KLoad tmo_load) as [h1 tid].
+    pose proof (scatter_many_facts (seq 1 n) h1 (next_rq h) tid) as Hf.
+    destruct (scatter_many h1 (next_rq h) tid (seq 1 n)) as [h2 o]. cbn [snd] in *.
+    destruct (Hf _ _ eq_refl) as [Hnf _].
+    destruct Hin as [Hx|Hin]; [discriminate|]. apply in_app_or in Hin.
+    destruct Hin as [Hin|[Hx|[]]]; [exfalso; eapply Hnf; eauto|discriminate].
+Qed.
+
+Lemma final_origin : forall h e h' os' c rq st,
+    step h e = (h', os') -> In (OFinal c rq st) os' ->
+    (exists t raw, In (ODone t raw) os' /\ t_rq t = rq /\ t_client t = c /\
+                   In st (verdict (t_kind t) (t_err t) (on_finish_flag raw)))
+    \/ (rq = next_rq h /\ forall w r q, ~ In (OSend w r q) os').
+Proof.
+  intros h e h' os' c rq st H Hin. pose proof H as Hstep. unfold step in H.
+  destruct (stopping h); [inversion H; subst; destruct Hin|].
+  destruct (apply_event h e) as [h1 o1] eqn:E1. pose proof (sweep_final h1 c rq st) as Hsf.
+  pose proof (sweep_no_send h1) as Hns.
+  destruct (sweep h1) as [h2 o2] eqn:E2. cbn [snd] in *. inversion H; subst h' os'; clear H.
+  apply filter_In in Hin. destruct Hin as [Hin Hdel]. apply in_app_or in Hin. destruct Hin as [Hin|Hin].
+  - right. destruct e as [c0 v|w r st0|w|c0|dt]; cbn [apply_event] in E1.
+    + pose proof (client_request_final h c0 v c rq st) as Hc. rewrite E1 in Hc. cbn [snd] in Hc.
+      destruct (Hc Hin) as [A [B C]]. split; [exact A|]. intros w r q Hs.
+      apply in_send_filter in Hs. apply in_app_or in Hs. destruct Hs as [Hs|Hs]; [eapply C|eapply Hns]; eauto.
+    + apply worker_response_facts in E1. destruct E1 as [F _]. exfalso. eapply F; eauto.
+    + inversion E1; subst. destruct Hin.
+    + inversion E1; subst. destruct Hin.
+    + inversion E1; subst. destruct Hin.
+  - left. destruct (Hsf Hin) as [t [raw [Hd [A [B C]]]]]. exists t, raw. repeat split; try assumption.
+    apply filter_In. split; [apply in_or_app; right; exact Hd|reflexivity].
+Qed.
+
+Lemma ok_is_sound_lemma : forall nw tm es h os e h' os' c rq,
+    run (init nw tm) es = (h, os) -> step h e = (h', os') ->
+    In (OFinal c rq SOk) os' ->
+    (forall t raw, In (ODone t raw) os' -> t_rq t = rq -> t_kind t = KWorker \/ t_kind t = KLoad) ->
+    forall w r, In (OSend w r rq) (os ++ os') -> acked (es ++ [e]) r.
+Proof.
+  intros nw tm es h os e h' os' c rq Hrun Hstep Hfin Hkinds w r Hs.
+  destruct (final_origin _ _ _ _ _ _ _ Hstep Hfin) as [[t [raw [Hd [Erq [Ec Hv]]]]]|[Erq Hno]].
+  - subst rq. destruct (ok_sound_done _ _ _ _ _ _ _ _ _ _ Hrun Hstep Hd (Hkinds _ _ Hd eq_refl) Hv) as [_ [_ [_ Hall]]].
+    eapply Hall; eauto.
+  - exfalso. apply in_app_or in Hs. destruct Hs as [Hs|Hs]; [|eapply Hno; eauto].
+    pose proof (inv_fresh _ _ _ (reach_inv _ _ _ _ _ Hrun) _ _ _ Hs). lia.
+Qed.
+
+(** ** what happens to one task in one step *)
+Definition same_task (t t' : task) : Prop :=
+  t_id t' = t_id t /\ t_rq t' = t_rq t /\ t_kind t' = t_kind t /\ t_deadline t' = t_deadline t /\
+  t_client t' = t_client t /\ t_err t <= t_err t' /\ t_ok t <= t_ok t'.
+
+Lemma same_task_refl : forall t, same_task t t.
+Proof. intros t. repeat split; lia. Qed.
+
+Lemma same_task_trans : forall a b c, same_task a b -> same_task b c -> same_task a c.
+Proof.
+  intros a b c [A1 [A2 [A3 [A4 [A5 [A6 A7]]]]]] [B1 [B2 [B3 [B4 [B5 [B6 B7]]]]]].
+  repeat split; try congruence; lia.
+Qed.
+
+Lemma exp_only_same : forall g t, exp_only g -> same_task t (g t).
+Proof. intros g t H. destruct (H t) as [A1 [A2 [A3 [A4 [A5 [A6 A7]]]]]]. repeat split; try congruence; lia. Qed.
+
+Lemma spawn_tasks : forall h c k tm (sc : hub -> nat -> nat -> hub * list out),
+    WF h -> (k = KLoad -> tm = TNone) ->
+    (forall h1 tid h2 o,
+        WF h1 -> (exists t, In t (tasks h1) /\ t_id t = tid) -> fresh_idx h1 tid 0 ->
+        sc h1 (next_rq h) tid = (h2, o) -> Scattered h1 (next_rq h) tid h2 o) ->
+    forall h1 tid h2 o, new_task h c k tm = (h1, tid) -> sc h1 (next_rq h) tid = (h2, o) ->
+    now h2 = now h /\ forall t, In t (tasks h) -> exists t1, In t1 (tasks h2) /\ same_task t t1.
+Proof.
+  intros h c k tm sc W Hk Hsc h1 tid h2 o E1 E2.
+  destruct (new_task_wf _ _ _ _ _ _ W E1 Hk) as [W1 [Etid [Ent [Eif [Ew [Enr [Enow [Eg [Est [Etm Ets]]]]]]]]]].
+  assert (Hex : exists t, In t (tasks h1) /\ t_id t = tid).
+  { eexists. split; [rewrite Ets; apply in_or_app; right; left; reflexivity|reflexivity]. }
+  assert (Hfr : fresh_idx h1 tid 0).
+  { intros r x Hin Hr. rewrite Eif in Hin. destruct (wf_live _ W r x Hin) as [A [t0 [B C]]].
+    pose proof (wf_tid _ W t0 B). unfold tid_of in *. lia. }
+  pose proof (Hsc _ _ _ _ W1 Hex Hfr E2) as S. destruct (sc_tasks _ _ _ _ _ S) as [g [Eg2 Hg]].
+  split; [rewrite (sc_now _ _ _ _ _ S); exact Enow|].
+  intros t Hin. exists (g t). split; [|apply exp_only_same; exact Hg].
+  rewrite Eg2. apply in_map. rewrite Ets. apply in_or_app. left. exact Hin.
+Qed.
+
+Lemma apply_event_tasks : forall h e h1 o1,
+    WF h -> apply_event h e = (h1, o1) ->
+    now h1 = (now h + match e with ETick dt => dt | _ => 0 end)%N /\
+    forall t, In t (tasks h) -> exists t1, In t1 (tasks h1) /\ same_task t t1.
+Proof.
+  intros h e h1 o1 W H. destruct e as [c v|w r st|w|c|dt]; cbn [apply_event] in H.
+  - rewrite N.add_0_r. unfold client_request in H.
+    assert (Hid : now h = now h /\ forall t, In t (tasks h) -> exists t1, In t1 (tasks h) /\ same_task t t1).
+    { split; [reflexivity|]. intros t Hin. exists t. split; [exact Hin|apply same_task_refl]. }
+    assert (Hsc : forall h1 tid h2 o, WF h1 -> (exists t, In t (tasks h1) /\ t_id t = tid) -> fresh_idx h1 tid 0 ->
+                   scatter_on h1 (next_rq h) tid 0 = (h2, o) -> Scattered h1 (next_rq h) tid h2 o).
+    { intros a b c0 d Wa Ha Fa Ea. apply (scatter_on_scattered _ _ _ _ _ _ Wa Ha Fa Ea). }
+    destruct v as [| | | | | | |n].
+    all: try (inversion H; subst; exact Hid).
+    all: try (match type of H with context [new_task ?a ?b ?k ?d] =>
+                destruct (new_task a b k d) as [h1' tid] eqn:E1;
+                destruct (scatter_on h1' (next_rq h) tid 0) as [h2 o] eqn:E2; inversion H; subst; clear H;
+                apply (spawn_tasks h c k d (fun h1 rq tid => scatter_on h1 rq tid 0) W ltac:(discriminate) Hsc _ _ _ _ E1 E2)
+              end).
+    destruct (new_task h c KLoad tmo_load) as [h1' tid] eqn:E1.
+    destruct (scatter_many h1' (next_rq h) tid (seq 1 n)) as [h2 o] eqn:E2. inversion H; subst; clear H.
+    assert (Hsc2 : forall h1 tid h2 o, WF h1 -> (exists t, In t (tasks h1) /\ t_id t = tid) -> fresh_idx h1 tid 0 ->
+                   scatter_many h1 (next_rq h) tid (seq 1 n) = (h2, o) -> Scattered h1 (next_rq h) tid h2 o).
+    { intros a b c0 d Wa Ha Fa Ea. apply (scatter_many_scattered (seq 1 n) a (next_rq h) b 1 c0 d); auto.
+      - rewrite seq_length. reflexivity.
+      - intros r x Hin Hr. specialize (Fa r x Hin Hr). lia. }
+    apply (spawn_tasks h c KLoad tmo_load (fun h1 rq tid => scatter_many h1 rq tid (seq 1 n)) W
+                       (fun _ => proj2 (proj2 (proj2 (proj2 gen_tmo)))) Hsc2 _ _ _ _ E1 E2).
+  - rewrite N.add_0_r. unfold worker_response in H.
+    assert (Hid : now h = now h /\ forall t, In t (tasks h) -> exists t1, In t1 (tasks h) /\ same_task t t1).
+    { split; [reflexivity|]. intros t Hin. exists t. split; [exact Hin|apply same_task_refl]. }
+    destruct r as [r|]; [|inversion H; subst; exact Hid].
+    destruct (lookup_rid r (in_flight h)) as [tid|]; [|inversion H; subst; exact Hid].
+    destruct (find_task tid (tasks h)) as [t0|]; [|inversion H; subst; exact Hid].
+    inversion H; subst; clear H. split; [reflexivity|]. intros t Hin.
+    exists (upd (on_message_arm st) tid t). split; [apply (in_map (upd (on_message_arm st) tid)); exact Hin|].
+    destruct (upd_fields (on_message_arm st) tid t) as [A1 [A2 [A3 [A4 [A5 [A6 [A7 A8]]]]]]].
+    repeat split; try assumption; lia.
+  - inversion H; subst; clear H. rewrite N.add_0_r. split; [reflexivity|].
+    intros t Hin. exists t. split; [exact Hin|apply same_task_refl].
+  - inversion H; subst; clear H. rewrite N.add_0_r. split; [reflexivity|].
+    intros t Hin. exists t. split; [exact Hin|apply same_task_refl].
+  - inversion H; subst; clear H. split; [reflexivity|].
+    intros t Hin. exists t. split; [exact Hin|apply same_task_refl].
+Qed.
+
+Lemma step_fate : forall h e h' os' t,
+    WF h -> step h e = (h', os') -> In t (tasks h) -> stopping h = false ->
+    now h' = (now h + match e with ETick dt => dt | _ => 0 end)%N /\
+    ((exists t', In t' (tasks h') /\ same_task t t' /\ finishes h' t' = None)
+     \/ (exists t' raw, In (ODone t' raw) os' /\ same_task t t')).
+Proof.
+  intros h e h' os' t W H Hin Hst. unfold step in H. rewrite Hst in H.
+  destruct (apply_event h e) as [h1 o1] eqn:E1.
+  destruct (apply_event_tasks _ _ _ _ W E1) as [Hnow Hts]. destruct (Hts t Hin) as [t1 [Hin1 Hsame]].
+  pose proof (sweep_done h1) as Hsd. pose proof (sweep_tasks h1) as Hst1.
+  assert (Hfin_eq : forall x, finishes (fst (sweep h1)) x = finishes h1 x) by reflexivity.
+  assert (Hnow2 : now (fst (sweep h1)) = now h1) by reflexivity.
+  destruct (sweep h1) as [h2 o2] eqn:E2. cbn [fst snd] in *. inversion H; subst h' os'; clear H.
+  split; [rewrite Hnow2; exact Hnow|].
+  destruct (finishes h1 t1) as [raw|] eqn:Ef.
+  - right. exists t1, raw. split; [|exact Hsame]. apply filter_In. split; [|reflexivity].
+    apply in_or_app. right. apply Hsd. auto.
+  - left. exists t1. split; [|split; [exact Hsame|rewrite Hfin_eq; exact Ef]].
+    rewrite Hst1. apply filter_In. split; [exact Hin1|]. rewrite Ef. reflexivity.
+Qed.
+
+Lemma fate_run : forall es es0 h0 os0 t h os,
+    Inv es0 h0 os0 -> In t (tasks h0) -> run h0 es = (h, os) ->
+    stopping h = true \/ (exists t1, In t1 (tasks h) /\ same_task t t1)
+    \/ (exists t1 raw, In (ODone t1 raw) os /\ same_task t t1).
+Proof.
+  induction es as [|e es IH]; intros es0 h0 os0 t h os I Hin H; cbn [run] in H.
+  - inversion H; subst. right. left. exists t. split; [exact Hin|apply same_task_refl].
+  - destruct (step h0 e) as [h1 o1] eqn:E1. destruct (run h1 es) as [h2 o2] eqn:E2.
+    inversion H; subst h os; clear H. pose proof (step_inv _ _ _ _ _ _ I E1) as I1.
+    destruct (stopping h0) eqn:Hst.
+    + unfold step in E1. rewrite Hst in E1. inversion E1; subst h1 o1.
+      destruct (IH _ _ _ t _ _ I1 Hin E2) as [A|[A|A]]; auto.
+    + destruct (step_fate _ _ _ _ t (inv_wf _ _ _ I) E1 Hin Hst) as [_ [[t1 [Hin1 [Hs1 _]]]|[t1 [raw [Hd Hs1]]]]].
+      * destruct (IH _ _ _ t1 _ _ I1 Hin1 E2) as [A|[[t2 [B C]]|[t2 [raw [B C]]]]].
+        -- left. exact A.
+        -- right. left. exists t2. split; [exact B|eapply same_task_trans; eauto].
+        -- right. right. exists t2, raw. split; [apply in_or_app; right; exact B|eapply same_task_trans; eauto].
+      * right. right. exists t1, raw. split; [apply in_or_app; left; exact Hd|exact Hs1].
+Qed.
+
+(** no_hang *)
+Lemma no_hang_lemma : forall nw tm es0 h0 os0 t d es h os dt h' os',
+    run (init nw tm) es0 = (h0, os0) -> In t (tasks h0) -> t_deadline t = Some d ->
+    run h0 es = (h, os) -> step h (ETick dt) = (h', os') -> (d < now h + dt)%N ->
+    stopping h' = true \/ exists t1 raw, In (ODone t1 raw) (os ++ os') /\ same_task t t1.
+Proof.
+  intros nw tm es0 h0 os0 t d es h os dt h' os' Hr0 Hin Hd Hr Hstep Hlt.
+  pose proof (reach_inv _ _ _ _ _ Hr0) as I0. pose proof (run_inv _ _ _ _ _ _ I0 Hr) as I.
+  destruct (fate_run _ _ _ _ t _ _ I0 Hin Hr) as [A|[[t1 [B C]]|[t1 [raw [B C]]]]].
+  - left. unfold step in Hstep. rewrite A in Hstep. inversion Hstep; subst. exact A.
+  - destruct (stopping h) eqn:Hst.
+    + left. unfold step in Hstep. rewrite Hst in Hstep. inversion Hstep; subst. exact Hst.
+    + destruct (step_fate _ _ _ _ t1 (inv_wf _ _ _ I) Hstep B Hst) as [Hnow [[t2 [Hin2 [Hs2 Hf2]]]|[t2 [raw [Hd2 Hs2]]]]].
+      * exfalso. destruct C as [_ [_ [_ [Cd _]]]]. destruct Hs2 as [_ [_ [_ [Sd _]]]].
+        unfold finishes in Hf2. destruct gen_flags as [F1 [F2 F3]]. rewrite F3, Sd, Cd, Hd, gen_expired, Hnow in Hf2.
+        assert (Hx : N.ltb d (now h + dt) = true) by (apply N.ltb_lt; exact Hlt). rewrite Hx in Hf2.
+        destruct (has_finished (t_ok t2) (t_err t2) (t_exp t2)); discriminate.
+      * right. exists t2, raw. split; [apply in_or_app; right; exact Hd2|eapply same_task_trans; eauto].
+  - right. exists t1, raw. split; [apply in_or_app; left; exact B|exact C].
+Qed.
+
+(** a finished task's verdict reaches its client, once per status of the verdict *)
+Lemma done_emits_final : forall h e h' os' t raw st,
+    step h e = (h', os') -> In (ODone t raw) os' ->
+    In st (verdict (t_kind t) (t_err t) (on_finish_flag raw)) ->
+    In (t_client t) (gone h') \/ In (OFinal (t_client t) (t_rq t) st) os'.
+Proof.
+  intros h e h' os' t raw st H Hd Hv. destruct (step_done _ _ _ _ _ _ H Hd) as [Hst [Hin Hfin]].
+  unfold step in H. rewrite Hst in H. destruct (apply_event h e) as [h1 o1]. cbn [fst] in *.
+  pose proof (sweep_outs h1) as Ho. destruct (sweep h1) as [h2 o2]. cbn [snd] in Ho. inversion H; subst h' os'; clear H.
+  destruct (existsb (Nat.eqb (t_client t)) (gone h2)) eqn:Eg.
+  - left. apply existsb_exists in Eg. destruct Eg as [x [Hx Ex]]. apply Nat.eqb_eq in Ex. subst x. exact Hx.
+  - right. apply filter_In. split.
+    + apply in_or_app. right. rewrite Ho. apply in_flat_map. exists t. split; [exact Hin|]. rewrite Hfin.
+      unfold finish_outs. apply in_or_app. left. apply in_map. exact Hv.
+    + unfold deliverable. cbn [out_client]. rewrite Eg. reflexivity.
+Qed.
+
+(** late_response_ignored / no_cross_talk *)
+Lemma late_response_lemma : forall h w r st,
+    WF h -> (forall t, In t (tasks h) -> t_id t <> tid_of r) ->
+    worker_response h w (Some r) st = (h, []).
+Proof.
+  intros h w r st W Hdead. unfold worker_response.
+  destruct (lookup_rid r (in_flight h)) as [tid|] eqn:El; [|reflexivity].
+  apply lookup_rid_in in El. destruct (wf_live _ W r tid El) as [A [t [B C]]].
+  exfalso. apply (Hdead t B). congruence.
+Qed.
+
+Lemma purged_after_finish : forall nw tm es h os r tid,
+    run (init nw tm) es = (h, os) -> In (r, tid) (in_flight h) ->
+    tid_of r = tid /\ exists t, In t (tasks h) /\ t_id t = tid.
+Proof. intros. apply (wf_live _ (inv_wf _ _ _ (reach_inv _ _ _ _ _ H)) r tid H0). Qed.
+
+Lemma no_cross_talk_lemma : forall h w r st h' os',
+    WF h -> worker_response h w (Some r) st = (h', os') ->
+    (forall t, In t (tasks h) -> t_id t <> tid_of r -> In t (tasks h')) /\
+    (forall t', In t' (tasks h') -> t_id t' <> tid_of r -> In t' (tasks h)) /\
+    (forall o c, In o os' -> out_client o = Some c ->
+                 exists t0, In t0 (tasks h) /\ t_id t0 = tid_of r /\ t_client t0 = c).
+Proof.
+  intros h w r st h' os' W H. unfold worker_response in H.
+  assert (Hid : (forall t, In t (tasks h) -> t_id t <> tid_of r -> In t (tasks h)) /\
+                (forall t', In t' (tasks h) -> t_id t' <> tid_of r -> In t' (tasks h)) /\
+                (forall o c, In o ([] : list out) -> out_client o = Some c ->
+                             exists t0, In t0 (tasks h) /\ t_id t0 = tid_of r /\ t_client t0 = c)).
+  { repeat split; auto. intros o c []. }
+  destruct (lookup_rid r (in_flight h)) as [tid|] eqn:El; [|inversion H; subst; exact Hid].
+  destruct (find_task tid (tasks h)) as [t0|] eqn:Ef; [|inversion H; subst; exact Hid].
+  inversion H; subst h' os'; clear H.
+  apply lookup_rid_in in El. destruct (wf_live _ W r tid El) as [A _]. destruct (find_task_in _ _ _ Ef) as [Ht0 Hid0].
+  cbn [tasks set_tasks set_in_flight]. repeat split.
+  - intros t Hin Hne. apply in_map_iff. exists t. split; [|exact Hin].
+    destruct (Nat.eqb (t_id t) tid) eqn:E; [apply Nat.eqb_eq in E; congruence|reflexivity].
+  - intros t' Hin Hne. apply in_map_iff in Hin. destruct Hin as [t [Et Hin]].
+    destruct (Nat.eqb (t_id t) tid) eqn:E.
+    + apply Nat.eqb_eq in E. subst t'. destruct (apply_arm_fields (on_message_arm st) t) as [Ei _]. congruence.
+    + subst t'. exact Hin.
+  - intros o c Hin Hc. exists t0. repeat split; [exact Ht0|congruence|].
+    destruct (on_message_arm st); cbn in Hin; try contradiction.
+    destruct Hin as [<-|[]]. cbn in Hc. congruence.
+Qed.
+
+
+(** ** witness of the open finding: a task without deadline waiting for a gone worker *)
+Definition hung (x : N) : hub :=
+  mkHub [(0, true)] [mkTask 0 0 0 KLoad 0 0 1 None] [((0, 0, 1), 0)] x 1 1 false 1000%N [].
+
+Lemma hung_step : forall x, step (hung x) (ETick 5000) = (hung (x + 5000)%N, []).
+Proof. intros x. reflexivity. Qed.
+
+Lemma hung_run : forall k x, snd (run (hung x) (repeat (ETick 5000) k)) = [].
+Proof.
+  induction k as [|k IH]; intros x; cbn [repeat run]; [reflexivity|].
+  rewrite hung_step. specialize (IH (x + 5000)%N).
+  destruct (run (hung (x + 5000)%N) (repeat (ETick 5000) k)) as [h2 o2]. cbn [snd] in *. subst o2. reflexivity.
+Qed.
+
+Lemma hung_reached :
+  run (init 1 1000) [EClient 0 (VLoad 1); EWorkerClosed 0] =
+  (hung 0, [ONotice 0 0; OSend 0 (0, 0, 1) 0; ONotice 0 0]).
+Proof. vm_compute. reflexivity. Qed.
